@@ -846,6 +846,1737 @@ Proof.
   - apply cur_of_points. unfold cur_of in *. now rewrite <- H1.
 Qed.
 
+(** the same theorem from an arbitrary start, including the empty folder
+    ([ov = None]: recovery = [Fresh], i.e. the create_new path) *)
+Theorem crash_atomic_from o s ov tr :
+  disk_ok o s ov -> protocol_ok o s tr = true ->
+  exists sf ovf, run_fs s tr = Some sf /\ disk_ok o sf ovf /\
+  summary (recover_result_of o s) = osummary o ov /\
+  summary (recover_result_of o sf) = osummary o ovf /\
+  forall n sn img,
+    run_fs s (firstn n tr) = Some sn -> is_crash_image sn img ->
+    (summary (recover_dir o img) = osummary o ov \/ summary (recover_dir o img) = osummary o ovf) /\
+    (length tr <= n -> summary (recover_dir o img) = osummary o ovf)%nat /\
+    summary (recover_dir o img) <> SFailed.
+Proof.
+  intros Hd Hp. unfold disk_ok in Hd. pose proof Hd as (_ & Hcd & Hcv & _).
+  unfold protocol_ok in Hp.
+  rewrite (cur_points_cur_of _ _ _ _ Hcd), (cur_points_cur_of _ _ _ _ Hcv) in Hp.
+  apply andb_true_iff in Hp as [_ Hp].
+  destruct (proto_run o s (ov, ov, false) tr) as [[sf [[dvf vvf] pubf]]|] eqn:Er; [|discriminate].
+  apply opt_eqb_eq in Hp.
+  destruct (crash_atomic_core _ _ _ _ _ _ _ _ Hd Er Hp) as (Hb & Ha & Hif & Hall).
+  exists sf, vvf. split; [eapply proto_run_run; eauto|]. split.
+  { unfold disk_ok. destruct Hif as (H1 & H2 & H3 & H4 & H5). repeat (split; try assumption). }
+  split; [assumption|]. split; [assumption|].
+  intros n sn img Hn Hi. destruct (Hall n sn img Hn Hi) as (H1 & H2 & H3 & _). auto.
+Qed.
+
+(** * Failure atomicity (C16): an op of the trace fails with an I/O error after [n]
+    ops; the process continues, there is NO crash *)
+
+(** [f] is still there, untruncated and complete, for the running process *)
+Definition intact (o : oracle) (s : fsstate) (f : fname) : Prop :=
+  exists i e, vns s f = Some i /\ vcont s i = e /\ expected o f = Some e.
+
+Lemma stable_intact o s f : stable o s f -> intact o s f.
+Proof.
+  intros H. apply stable_spec in H as (i & e & H1 & H2 & H3 & H4 & H5 & H6).
+  exists i, e. auto.
+Qed.
+
+(** the version [v] is durably published and all its files are intact *)
+Definition published (o : oracle) (s : fsstate) (v : N) : Prop :=
+  cur_points o s (dns s) (Some v) /\ forall f, In f (pnames o v) -> intact o s f.
+
+Theorem fail_atomic o s tr vb :
+  disk_ok o s (Some vb) -> protocol_ok o s tr = true ->
+  exists sf va, run_fs s tr = Some sf /\ disk_ok o sf (Some va) /\
+  forall n sn, run_fs s (firstn n tr) = Some sn ->
+    (* the durable state is before-or-after *)
+    (summary (recover_result_of o sn) = summary (recover_result_of o s) \/
+     summary (recover_result_of o sn) = summary (recover_result_of o sf)) /\
+    (* and the durably current version (old or new) has lost no file: nothing it names
+       has been unlinked, renamed away or truncated *)
+    (published o sn vb \/ published o sn va).
+Proof.
+  intros Hd Hp. unfold disk_ok in Hd.
+  pose proof Hd as (_ & Hcd & Hcv & _).
+  unfold protocol_ok in Hp.
+  rewrite (cur_points_cur_of _ _ _ _ Hcd), (cur_points_cur_of _ _ _ _ Hcv) in Hp.
+  apply andb_true_iff in Hp as [_ Hp].
+  destruct (proto_run o s (Some vb, Some vb, false) tr) as [[sf [[dvf vvf] pubf]]|] eqn:Er;
+    [|discriminate].
+  apply opt_eqb_eq in Hp.
+  destruct (crash_atomic_core _ _ _ _ _ _ _ _ Hd Er Hp) as (Hb & Ha & Hif & Hall).
+  assert (Hvvf : exists v', vvf = Some v').
+  { assert (Hr0 : reach0 (Some vb) (Some vb, Some vb, false)) by (simpl; auto).
+    pose proof (proto_run_reach0 o (Some vb) _ _ _ _ _ Hr0 Er) as Hr.
+    simpl in Hr. subst dvf. destruct pubf.
+    - apply Hr.
+    - destruct Hr as [_ E]. eauto. }
+  destruct Hvvf as [va ->].
+  exists sf, va. split; [eapply proto_run_run; eauto|]. split.
+  { unfold disk_ok. destruct Hif as (H1 & H2 & H3 & H4 & H5).
+    repeat (split; try assumption). }
+  intros n sn Hn.
+  destruct (Hall n sn (durable_image sn) Hn (durable_is_crash_image sn))
+    as (H1 & _ & _ & dvn & vvn & pubn & Hin & Hdv).
+  split.
+  - unfold recover_result_of at 1 3. rewrite Hb, Ha. exact H1.
+  - destruct Hin as (_ & Hcdn & _ & Hpdn & _).
+    destruct Hdv as [->| ->]; [left|right]; (split; [assumption|]);
+      intros f Hf; apply stable_intact; apply Hpdn; exact Hf.
+Qed.
+
+(** * The enumeration [crash_images] is sound and complete w.r.t. [is_crash_image] *)
+Definition names_ok (s : fsstate) : Prop :=
+  forall f, ~ In f (names s) -> dns s f = None /\ vns s f = None.
+
+Lemma add_name_in f g l : In g (add_name f l) <-> g = f \/ In g l.
+Proof.
+  unfold add_name. destruct (existsb (fname_eqb f) l) eqn:E.
+  - split; [auto|]. intros [->|H]; [|assumption].
+    apply existsb_exists in E as (x & Hx & Ex). apply fname_eqb_eq in Ex. now subst.
+  - simpl. split; intros [H|H]; auto.
+Qed.
+
+Lemma names_ok_init : names_ok fs_init.
+Proof. intros f _. split; reflexivity. Qed.
+
+Lemma names_ok_apply s op s' : apply s op = Some s' -> names_ok s -> names_ok s'.
+Proof.
+  intros Ha Hn. destruct op; simpl in Ha.
+  - inversion Ha; subst; exact Hn.
+  - destruct (negb (vdirs s (dir_of f))); [discriminate|].
+    destruct (vns s f) as [j|] eqn:Ev.
+    + destruct excl; [discriminate|]. inversion Ha; subst; exact Hn.
+    + inversion Ha; subst; clear Ha. intros g Hg. simpl in *.
+      rewrite add_name_in in Hg. destruct (Hn g) as [H1 H2]; [tauto|].
+      split; [assumption|]. rewrite upd_name_other; [assumption|]. intros ->. tauto.
+  - destruct (vns s f); [|discriminate]. inversion Ha; subst; exact Hn.
+  - destruct (vns s f); [|discriminate]. inversion Ha; subst; exact Hn.
+  - destruct (negb (vdirs s d)); [discriminate|]. inversion Ha; subst; clear Ha.
+    intros g Hg. simpl in *. destruct (Hn g Hg) as [H1 H2].
+    split; [|assumption]. now destruct (dname_eqb (dir_of g) d).
+  - destruct (negb (dname_eqb (dir_of src) (dir_of dst))); [discriminate|].
+    destruct (fname_eqb src dst).
+    + destruct (vns s src); [|discriminate]. inversion Ha; subst; exact Hn.
+    + destruct (vns s src) as [j|] eqn:Ev; [|discriminate]. inversion Ha; subst; clear Ha.
+      intros g Hg. simpl in *. rewrite add_name_in in Hg.
+      destruct (Hn g) as [H1 H2]; [tauto|]. split; [assumption|].
+      rewrite upd_name_other by (intros ->; tauto).
+      unfold upd_name. now destruct (fname_eqb g src).
+  - destruct (vns s f) eqn:Ev; [|discriminate]. inversion Ha; subst; clear Ha.
+    intros g Hg. simpl in *. destruct (Hn g Hg) as [H1 H2]. split; [assumption|].
+    unfold upd_name. now destruct (fname_eqb g f).
+Qed.
+
+Lemma run_fs_names_ok s tr s' : run_fs s tr = Some s' -> names_ok s -> names_ok s'.
+Proof.
+  revert s; induction tr as [|op tr IH]; intros s; simpl.
+  - intros H; inversion H; subst; auto.
+  - destruct (apply s op) as [s1|] eqn:Ea; [|discriminate].
+    intros H Hn. apply (IH s1 H). eapply names_ok_apply; eauto.
+Qed.
+
+Lemma entry_cands_spec s f c : In c (entry_cands s f) <-> entry_ok s f c.
+Proof.
+  unfold entry_cands, entry_ok. cbv zeta.
+  set (of_ino := fun o0 : option N => match o0 with
+        | Some i => map Some (crash_contents (dcont s i) (vcont s i)) | None => [None] end).
+  assert (Hof : forall o0, In c (of_ino o0) <->
+            match c with
+            | None => o0 = None
+            | Some cc => exists i, o0 = Some i /\ In cc (crash_contents (dcont s i) (vcont s i))
+            end).
+  { intros [i|]; unfold of_ino.
+    - rewrite in_map_iff. destruct c as [cc|].
+      + split; [intros (x & E & Hx); inversion E; subst; eauto|].
+        intros (j & E & Hx); inversion E; subst. eauto.
+      + split; [intros (x & E & _); discriminate|discriminate].
+    - simpl. destruct c; split; try tauto; try (intros [H|[]]; congruence).
+      intros (k & E & _); discriminate. }
+  assert (Hboth : In c (of_ino (dns s f) ++ of_ino (vns s f)) <->
+            match c with
+            | None => dns s f = None \/ vns s f = None
+            | Some c0 => exists i, (dns s f = Some i \/ vns s f = Some i) /\
+                                   In c0 (crash_contents (dcont s i) (vcont s i))
+            end).
+  { rewrite in_app_iff. rewrite (Hof (dns s f)), (Hof (vns s f)). destruct c as [cc|]; [|tauto].
+    split.
+    - intros [(i & E & H)|(i & E & H)]; eauto.
+    - intros (i & [E|E] & H); eauto. }
+  destruct (dns s f) as [i|] eqn:Ed, (vns s f) as [j|] eqn:Ev; try exact Hboth.
+  - cbv iota beta. destruct (N.eqb i j) eqn:E; [|exact Hboth]. apply N.eqb_eq in E; subst j.
+    cbv iota beta. etransitivity; [exact (Hof (Some i))|]. destruct c as [cc|].
+    + split; [intros (k & E & H); eauto|]. intros (k & [E|E] & H); eauto.
+    + split; [discriminate|intros [H|H]; discriminate].
+  - cbv iota beta. etransitivity; [exact (Hof None)|]. destruct c as [cc|]; [|tauto].
+    split; [intros (k & E & _); discriminate|]. intros (k & [E|E] & _); discriminate.
+Qed.
+
+Lemma all_choices_sound {A} (F : fname -> list (option A)) ns ch :
+  In ch (all_choices (map (fun f => (f, F f)) ns)) ->
+  forall f, (In f ns -> In (alookup ch f) (F f)) /\ (~ In f ns -> alookup ch f = None).
+Proof.
+  revert ch; induction ns as [|g ns IH]; intros ch; simpl.
+  - intros [<-|[]] f. split; [intros []|reflexivity].
+  - intros H. apply in_flat_map in H as (c & Hc & H).
+    apply in_map_iff in H as (ch' & <- & Hch'). specialize (IH ch' Hch').
+    intros f. simpl. destruct (fname_eqb f g) eqn:E.
+    + apply fname_eqb_eq in E; subst. split; [intros _; exact Hc|]. intros H; exfalso; auto.
+    + apply fname_eqb_neq in E. destruct (IH f) as [H1 H2]. split.
+      * intros [->|H]; [contradiction|auto].
+      * intros H. apply H2. tauto.
+Qed.
+
+Lemma all_choices_complete {A} (F : fname -> list (option A)) (G : fname -> option A) ns :
+  (forall f, In f ns -> In (G f) (F f)) ->
+  In (map (fun f => (f, G f)) ns) (all_choices (map (fun f => (f, F f)) ns)).
+Proof.
+  induction ns as [|g ns IH]; intros H; simpl; [now left|].
+  apply in_flat_map. exists (G g). split; [apply H; now left|].
+  apply in_map. apply IH. intros f Hf. apply H. now right.
+Qed.
+
+Lemma alookup_map {A} (G : fname -> option A) ns f :
+  alookup (map (fun f => (f, G f)) ns) f = if existsb (fname_eqb f) ns then G f else None.
+Proof.
+  induction ns as [|g ns IH]; simpl; [reflexivity|].
+  destruct (fname_eqb f g) eqn:E; simpl; [|exact IH].
+  apply fname_eqb_eq in E. now subst.
+Qed.
+
+Lemma dir_cands_spec s d b :
+  In b (dir_cands s d) <->
+  (ddirs s d = true -> b = true) /\ (b = true -> ddirs s d = true \/ vdirs s d = true).
+Proof.
+  unfold dir_cands. destruct (ddirs s d), (vdirs s d), b; simpl; intuition congruence.
+Qed.
+
+Theorem crash_images_sound s img :
+  wf s -> names_ok s -> In img (crash_images s) -> is_crash_image s img.
+Proof.
+  intros [Hr _] Hn H. unfold crash_images in H.
+  apply in_flat_map in H as (dt & Hdt & H). apply in_flat_map in H as (db & Hdb & H).
+  apply in_map_iff in H as (ch & <- & Hch).
+  apply dir_cands_spec in Hdt as [Ht1 Ht2]. apply dir_cands_spec in Hdb as [Hb1 Hb2].
+  split; [|split]; simpl.
+  - intros [] Hd; auto.
+  - intros [] Hd; auto.
+  - intros f. destruct (all_choices_sound _ _ _ Hch f) as [H1 H2].
+    destruct (in_dec fname_eq_dec f (names s)) as [Hin|Hin].
+    + apply entry_cands_spec. auto.
+    + rewrite (H2 Hin). simpl. left. apply Hn. assumption.
+Qed.
+
+(** every crash image is (extensionally) enumerated *)
+Theorem crash_images_complete s img :
+  wf s -> names_ok s -> is_crash_image s img ->
+  exists img', In img' (crash_images s) /\
+               (forall d, idirs img' d = idirs img d) /\ (forall f, iget img' f = iget img f).
+Proof.
+  intros [Hr _] Hn (Hd1 & Hd2 & He).
+  exists (mkImage (fun d => match d with Root => true | Tables => idirs img Tables
+                                      | Blobs => idirs img Blobs end)
+                  (alookup (map (fun f => (f, iget img f)) (names s))) (names s)).
+  split; [|split]; simpl.
+  - unfold crash_images. apply in_flat_map. exists (idirs img Tables).
+    split; [apply dir_cands_spec; auto|].
+    apply in_flat_map. exists (idirs img Blobs). split; [apply dir_cands_spec; auto|].
+    apply in_map_iff. eexists. split; [reflexivity|].
+    apply (all_choices_complete (entry_cands s) (iget img)).
+    intros f _. apply entry_cands_spec. apply He.
+  - intros []; auto. symmetry. auto.
+  - intros f. rewrite alookup_map. destruct (existsb (fname_eqb f) (names s)) eqn:E; [reflexivity|].
+    assert (Hnin : ~ In f (names s)).
+    { intros Hin. assert (existsb (fname_eqb f) (names s) = true); [|congruence].
+      apply existsb_exists. exists f. split; [assumption|apply fname_eqb_refl]. }
+    destruct (Hn f Hnin) as [H1 H2]. specialize (He f).
+    destruct (iget img f) as [c|]; [|reflexivity]. simpl in He.
+    destruct He as (i & [E'|E'] & _); congruence.
+Qed.
+
+Lemma forallb_ext' {A} (f g : A -> bool) l : (forall x, f x = g x) -> forallb f l = forallb g l.
+Proof. intros H. induction l; simpl; [reflexivity|]. now rewrite H, IHl. Qed.
+
+(** recovery only looks at [idirs] and [iget] (the listing only affects [deleted]) *)
+Lemma recover_ext o a b :
+  (forall d, idirs a d = idirs b d) -> (forall f, iget a f = iget b f) ->
+  summary (recover_dir o a) = summary (recover_dir o b).
+Proof.
+  intros Hd Hg.
+  assert (Hf : forall f, img_file a f = img_file b f)
+    by (intros f; unfold img_file; now rewrite Hd, Hg).
+  assert (Hok : forall f, file_ok o a f = file_ok o b f)
+    by (intros f; unfold file_ok; now rewrite Hf).
+  unfold recover_dir. rewrite Hf.
+  destruct (img_file b Current) as [[[|t r] tn]|]; try reflexivity.
+  destruct (current_points o t) as [v|]; [|reflexivity].
+  rewrite Hok. destruct (file_ok o b (VersionFile v)); [|reflexivity]. simpl negb. cbv iota.
+  destruct (version_contents o v) as [vd|]; [|reflexivity].
+  rewrite (forallb_ext' _ (fun id => file_ok o b (TableFile id))) by (intros; apply Hok).
+  destruct (forallb _ (vd_tables vd)); [|reflexivity]. simpl negb. cbv iota.
+  rewrite Hd.
+  rewrite (forallb_ext' _ (fun id => file_ok o b (BlobFile id))) by (intros; apply Hok).
+  destruct (idirs b Blobs && negb (forallb _ (vd_blobs vd))); reflexivity.
+Qed.
+
+(** hence the enumerating checker covers every crash image *)
+Corollary crash_images_cover o s (P : rsummary -> Prop) :
+  wf s -> names_ok s ->
+  (forall img', In img' (crash_images s) -> P (summary (recover_dir o img'))) ->
+  forall img, is_crash_image s img -> P (summary (recover_dir o img)).
+Proof.
+  intros Hw Hn H img Hi.
+  destruct (crash_images_complete s img Hw Hn Hi) as (img' & Hin & Hd & Hg).
+  rewrite <- (recover_ext o img' img Hd Hg). auto.
+Qed.
+
+(** * Reclamation (C20): what is left after recovery's cleanup *)
+Definition cleanup_image (img : image) (del : list fname) : image :=
+  mkImage (idirs img)
+          (fun f => if existsb (fname_eqb f) del then None else iget img f)
+          (inames img).
+
+Lemma memN_spec x l : memN x l = true <-> In x l.
+Proof.
+  unfold memN. rewrite existsb_exists. split.
+  - intros (y & Hy & E). apply N.eqb_eq in E. now subst.
+  - intros H. exists x. split; [assumption|apply N.eqb_refl].
+Qed.
+
+Lemma in_del_hidden img del f :
+  In f del -> img_file (cleanup_image img del) f = None.
+Proof.
+  intros H. unfold img_file, cleanup_image. simpl.
+  destruct (idirs img (dir_of f)); [|reflexivity].
+  assert (E : existsb (fname_eqb f) del = true).
+  { apply existsb_exists. exists f. split; [assumption|apply fname_eqb_refl]. }
+  now rewrite E.
+Qed.
+
+Lemma cleanup_file_some img del f :
+  img_file (cleanup_image img del) f <> None -> img_file img f <> None.
+Proof.
+  unfold img_file, cleanup_image. simpl.
+  destruct (idirs img (dir_of f)); [|auto].
+  destruct (existsb (fname_eqb f) del); auto.
+Qed.
+
+(** After [trace_recover_cleanup] the directory contains only: [current], the current
+    [v<id>], the listed tables and blob files - and whatever temp files ([.tmp*] of
+    an interrupted [rewrite_atomic]) and foreign files were there: those are NEVER
+    removed by the crate (tree/mod.rs:1188 only matches names starting with 'v'). *)
+Theorem reclaim_exact o img vid ts bs del :
+  recover_dir o img = Recovered vid ts bs del ->
+  forall f, In f (inames img) -> img_file (cleanup_image img del) f <> None ->
+    f = Current \/ f = VersionFile vid \/
+    (exists id, f = TableFile id /\ In id ts) \/
+    (exists id, f = BlobFile id /\ In id bs) \/
+    (exists k, f = TempFile k) \/ (exists k, f = Other k).
+Proof.
+  unfold recover_dir.
+  destruct (img_file img Current) as [[[|t r] tn]|]; try discriminate.
+  destruct (current_points o t) as [v|]; [|discriminate].
+  destruct (negb (file_ok o img (VersionFile v))); [discriminate|].
+  destruct (version_contents o v) as [vd|]; [|discriminate].
+  destruct (negb (forallb _ (vd_tables vd))); [discriminate|].
+  destruct (idirs img Blobs && negb (forallb _ (vd_blobs vd))); [discriminate|].
+  intros H; inversion H; subst; clear H. intros f Hin Hf.
+  pose proof (cleanup_file_some _ _ _ Hf) as Hf0.
+  assert (Hlist : forall d, dir_of f = d -> In f (listing img d)).
+  { intros d Hd. unfold listing. apply filter_In. split; [assumption|].
+    rewrite Hd, dname_eqb_refl. simpl. destruct (img_file img f); [reflexivity|congruence]. }
+  destruct f as [|id|id|id|k|k];
+    [now left| | | |right; right; right; right; left; now exists k
+    |right; right; right; right; right; now exists k].
+  - (* version file *)
+    destruct (N.eqb id vid) eqn:E; [apply N.eqb_eq in E; subst; auto|].
+    exfalso. apply Hf. apply in_del_hidden. apply in_or_app. left.
+    apply filter_In. split; [now apply Hlist|]. now rewrite E.
+  - (* table *)
+    destruct (memN id (vd_tables vd)) eqn:E; [apply memN_spec in E; eauto 10|].
+    exfalso. apply Hf. apply in_del_hidden. apply in_or_app. right. apply in_or_app. left.
+    apply filter_In. split; [now apply Hlist|]. now rewrite E.
+  - (* blob file *)
+    destruct (idirs img Blobs) eqn:Eb.
+    + destruct (memN id (vd_blobs vd)) eqn:E; [apply memN_spec in E; eauto 10|].
+      exfalso. apply Hf. apply in_del_hidden. apply in_or_app. right. apply in_or_app. right.
+      apply filter_In. split; [now apply Hlist|]. now rewrite E.
+    + exfalso. apply Hf0. unfold img_file. simpl. now rewrite Eb.
+Qed.
+
+(** ... and nothing needed was deleted: the kept files are all still there *)
+Theorem reclaim_keeps o img vid ts bs del :
+  recover_dir o img = Recovered vid ts bs del ->
+  forall f, (f = Current \/ f = VersionFile vid \/ (exists id, f = TableFile id /\ In id ts) \/
+             (exists id, f = BlobFile id /\ In id bs)) ->
+    img_file (cleanup_image img del) f = img_file img f /\ img_file img f <> None.
+Proof.
+  unfold recover_dir.
+  destruct (img_file img Current) as [[[|t r] tn]|] eqn:Ec; try discriminate.
+  destruct (current_points o t) as [v|]; [|discriminate].
+  destruct (file_ok o img (VersionFile v)) eqn:Ev; [|discriminate]. simpl negb. cbv iota.
+  destruct (version_contents o v) as [vd|]; [|discriminate].
+  destruct (forallb (fun id => file_ok o img (TableFile id)) (vd_tables vd)) eqn:Et;
+    [|discriminate]. simpl negb. cbv iota.
+  destruct (idirs img Blobs && negb (forallb (fun id => file_ok o img (BlobFile id)) (vd_blobs vd)))
+    eqn:Eb; [discriminate|].
+  intros H; inversion H; subst; clear H. rewrite forallb_forall in Et.
+  intros f Hf.
+  assert (Hpres : img_file img f <> None).
+  { destruct Hf as [->|[->|[(id & -> & Hid)|(id & -> & Hid)]]].
+    - congruence.
+    - unfold file_ok in Ev. destruct (img_file img (VersionFile vid)); congruence.
+    - specialize (Et id Hid). unfold file_ok in Et.
+      destruct (img_file img (TableFile id)); congruence.
+    - destruct (idirs img Blobs); [|destruct Hid]. simpl in Eb.
+      apply negb_false_iff in Eb. rewrite forallb_forall in Eb. specialize (Eb id Hid).
+      unfold file_ok in Eb. destruct (img_file img (BlobFile id)); congruence. }
+  split; [|exact Hpres].
+  unfold img_file, cleanup_image. simpl. destruct (idirs img (dir_of f)); [|reflexivity].
+  match goal with |- (if existsb (fname_eqb f) ?D then _ else _) = _ =>
+    destruct (existsb (fname_eqb f) D) eqn:E end; [|reflexivity].
+  exfalso. apply existsb_exists in E as (g & Hg & Eg). apply fname_eqb_eq in Eg. subst g.
+  apply in_app_or in Hg as [Hg|Hg]; [|apply in_app_or in Hg as [Hg|Hg]];
+    apply filter_In in Hg as [_ Hg].
+  - destruct Hf as [->|[->|[(id & -> & Hid)|(id & -> & Hid)]]]; try discriminate.
+    rewrite N.eqb_refl in Hg. discriminate.
+  - destruct Hf as [->|[->|[(id & -> & Hid)|(id & -> & Hid)]]]; try discriminate.
+    apply memN_spec in Hid. rewrite Hid in Hg. discriminate.
+  - destruct Hf as [->|[->|[(id & -> & Hid)|(id & -> & Hid)]]]; try discriminate.
+    destruct (idirs img Blobs); [|destruct Hid].
+    apply memN_spec in Hid. rewrite Hid in Hg. discriminate.
+Qed.
+
+(** * Symbolic execution of the crate's traces *)
+
+(** [g] is bound, fully fsynced (content and directory entry), content [c] *)
+Definition synced (s : fsstate) (g : fname) (c : list N) : Prop :=
+  exists i, dns s g = Some i /\ vns s g = Some i /\ dcont s i = c /\ vcont s i = c.
+
+(** [g] is open for writing with volatile content [c] *)
+Definition openf (s : fsstate) (g : fname) (c : list N) : Prop :=
+  exists i, vns s g = Some i /\ vcont s i = c.
+
+Lemma synced_stable o s g c :
+  synced s g c -> expected o g = Some c -> ddirs s (dir_of g) = true -> stable o s g.
+Proof. intros (i & H1 & H2 & H3 & H4) He Hd. apply stable_spec. exists i, c. repeat split; assumption. Qed.
+
+Lemma stable_synced o s g : stable o s g -> exists c, synced s g c /\ expected o g = Some c.
+Proof.
+  intros H. apply stable_spec in H as (i & e & H1 & H2 & H3 & H4 & H5 & H6).
+  exists e. split; [exists i; auto|assumption].
+Qed.
+
+(** frame: everything about names outside [G] is preserved *)
+Record Rel (G : fname -> Prop) (s s' : fsstate) : Prop := {
+  r_wf : wf s';
+  r_vinj : vinj s';
+  r_vdirs : forall d, vdirs s d = true -> vdirs s' d = true;
+  r_ddirs : forall d, ddirs s d = true -> ddirs s' d = true;
+  r_vns : forall h, ~ G h -> vns s' h = vns s h;
+  r_open : forall h c, ~ G h -> openf s h c -> openf s' h c;
+  r_synced : forall h c, ~ G h -> synced s h c -> synced s' h c
+}.
+
+Lemma Rel_refl G s : wf s -> vinj s -> Rel G s s.
+Proof. intros; split; auto. Qed.
+
+Lemma Rel_trans G s1 s2 s3 : Rel G s1 s2 -> Rel G s2 s3 -> Rel G s1 s3.
+Proof.
+  intros [A1 A2 A3 A4 A5 A6 A7] [B1 B2 B3 B4 B5 B6 B7]. split; auto.
+  intros h Hh. rewrite B5, A5; auto.
+Qed.
+
+Lemma Rel_mono (G G' : fname -> Prop) s s' : (forall h, G h -> G' h) -> Rel G s s' -> Rel G' s s'.
+Proof. intros HG [A1 A2 A3 A4 A5 A6 A7]. split; auto. Qed.
+
+Lemma vdirs_apply s op s' d : apply s op = Some s' -> vdirs s d = true -> vdirs s' d = true.
+Proof.
+  intros Ha Hd. destruct op; simpl in Ha.
+  - inversion Ha; subst; simpl. now rewrite Hd, orb_true_r.
+  - destruct (negb (vdirs s (dir_of f))); [discriminate|]. destruct (vns s f).
+    + destruct excl; [discriminate|]. inversion Ha; subst; auto.
+    + inversion Ha; subst; auto.
+  - destruct (vns s f); [|discriminate]. inversion Ha; subst; auto.
+  - destruct (vns s f); [|discriminate]. inversion Ha; subst; auto.
+  - destruct (negb (vdirs s d0)); [discriminate|]. inversion Ha; subst; auto.
+  - destruct (negb (dname_eqb (dir_of src) (dir_of dst))); [discriminate|].
+    destruct (fname_eqb src dst); destruct (vns s src); try discriminate; inversion Ha; subst; auto.
+  - destruct (vns s f); [|discriminate]. inversion Ha; subst; auto.
+Qed.
+
+Lemma noalias_synced s h c : vinj s -> synced s h c -> noalias s h.
+Proof.
+  intros Hi (i & H1 & H2 & _) g j Hg Hj.
+  assert (j <> i) by (intros ->; apply Hg; eapply Hi; eauto).
+  split; congruence.
+Qed.
+
+Lemma apply_rel (G : fname -> Prop) s op s' :
+  apply s op = Some s' -> wf s -> vinj s -> (forall g, In g (touched op) -> G g) -> Rel G s s'.
+Proof.
+  intros Ha Hw Hv HG.
+  assert (Hun : forall h, ~ G h -> untouched h op).
+  { intros h Hh g Hg ->. apply Hh. now apply HG. }
+  split.
+  - eapply wf_apply; eauto.
+  - eapply vinj_apply; eauto.
+  - intros d. eapply vdirs_apply; eauto.
+  - intros d Hd.
+    (* any name works to read off k_dirs; use a name that is trivially untouched? we
+       prove it directly instead *)
+    destruct op; simpl in Ha.
+    + inversion Ha; subst; auto.
+    + destruct (negb (vdirs s (dir_of f))); [discriminate|]. destruct (vns s f).
+      * destruct excl; [discriminate|]. inversion Ha; subst; auto.
+      * inversion Ha; subst; auto.
+    + destruct (vns s f); [|discriminate]. inversion Ha; subst; auto.
+    + destruct (vns s f); [|discriminate]. inversion Ha; subst; auto.
+    + destruct (negb (vdirs s d0)); [discriminate|]. inversion Ha; subst; simpl.
+      destruct (dname_eqb d0 Root); [now rewrite Hd|assumption].
+    + destruct (negb (dname_eqb (dir_of src) (dir_of dst))); [discriminate|].
+      destruct (fname_eqb src dst); destruct (vns s src); try discriminate; inversion Ha; subst; auto.
+    + destruct (vns s f); [|discriminate]. inversion Ha; subst; auto.
+  - (* vns frame *)
+    intros h Hh. specialize (Hun h Hh). destruct op; simpl in Ha.
+    + inversion Ha; subst; auto.
+    + destruct (negb (vdirs s (dir_of f))); [discriminate|]. destruct (vns s f) eqn:Ev.
+      * destruct excl; [discriminate|]. inversion Ha; subst s'; auto.
+      * inversion Ha; subst s'; simpl. apply upd_name_other. intros ->. apply (Hun f); simpl; auto.
+    + destruct (vns s f); [|discriminate]. inversion Ha; subst s'; auto.
+    + destruct (vns s f); [|discriminate]. inversion Ha; subst s'; auto.
+    + destruct (negb (vdirs s d)); [discriminate|]. inversion Ha; subst s'; auto.
+    + destruct (negb (dname_eqb (dir_of src) (dir_of dst))); [discriminate|].
+      destruct (fname_eqb src dst).
+      * destruct (vns s src); [|discriminate]. inversion Ha; subst s'; auto.
+      * destruct (vns s src) eqn:Ev; [|discriminate]. inversion Ha; subst s'; simpl.
+        rewrite upd_name_other by (intros ->; apply (Hun dst); simpl; auto).
+        apply upd_name_other. intros ->. apply (Hun src); simpl; auto.
+    + destruct (vns s f) eqn:Ev; [|discriminate]. inversion Ha; subst s'; simpl.
+      apply upd_name_other. intros ->. apply (Hun f); simpl; auto.
+  - (* open files *)
+    intros h c Hh (i & H1 & H2). specialize (Hun h Hh).
+    assert (Hb : i < next_ino s) by (destruct Hw as [_ Hb]; eapply Hb; eauto).
+    destruct op; simpl in Ha.
+    + inversion Ha; subst s'. exists i; auto.
+    + destruct (negb (vdirs s (dir_of f))); [discriminate|]. destruct (vns s f) as [j|] eqn:Ev.
+      * destruct excl; [discriminate|]. inversion Ha; subst s'. exists i; simpl. split; [assumption|].
+        rewrite upd_cont_other; [assumption|]. intros ->.
+        apply (Hun f); simpl; auto. eapply Hv; eauto.
+      * inversion Ha; subst s'. exists i; simpl. split.
+        -- rewrite upd_name_other; [assumption|]. intros ->. apply (Hun f); simpl; auto.
+        -- rewrite upd_cont_other; [assumption|lia].
+    + destruct (vns s f) as [j|] eqn:Ev; [|discriminate]. inversion Ha; subst s'.
+      exists i; simpl. split; [assumption|].
+      rewrite upd_cont_other; [assumption|]. intros ->.
+      apply (Hun f); simpl; auto. eapply Hv; eauto.
+    + destruct (vns s f); [|discriminate]. inversion Ha; subst s'. exists i; auto.
+    + destruct (negb (vdirs s d)); [discriminate|]. inversion Ha; subst s'. exists i; auto.
+    + destruct (negb (dname_eqb (dir_of src) (dir_of dst))); [discriminate|].
+      destruct (fname_eqb src dst).
+      * destruct (vns s src); [|discriminate]. inversion Ha; subst s'. exists i; auto.
+      * destruct (vns s src) eqn:Ev; [|discriminate]. inversion Ha; subst s'. exists i; simpl.
+        split; [|assumption].
+        rewrite upd_name_other by (intros ->; apply (Hun dst); simpl; auto).
+        rewrite upd_name_other by (intros ->; apply (Hun src); simpl; auto). assumption.
+    + destruct (vns s f) eqn:Ev; [|discriminate]. inversion Ha; subst s'. exists i; simpl.
+      split; [|assumption]. rewrite upd_name_other; [assumption|].
+      intros ->. apply (Hun f); simpl; auto.
+  - (* synced files *)
+    intros h c Hh Hs. specialize (Hun h Hh).
+    pose proof (apply_keeps s op s' h Ha Hw (noalias_synced _ _ _ Hv Hs) Hun) as [Kv Kd Kc Kdir].
+    destruct Hs as (i & H1 & H2 & H3 & H4). exists i.
+    destruct (Kc i (or_introl H2)) as [Kc1 Kc2].
+    repeat split; try congruence.
+    + destruct Kd as [Kd|[_ Kd]]; congruence.
+    + rewrite Kc2; congruence.
+Qed.
+
+Lemma run_rel (G : fname -> Prop) s tr s' :
+  run_fs s tr = Some s' -> wf s -> vinj s ->
+  (forall op g, In op tr -> In g (touched op) -> G g) -> Rel G s s'.
+Proof.
+  revert s; induction tr as [|op tr IH]; intros s; cbn [run_fs].
+  - intros H; inversion H; subst. intros. now apply Rel_refl.
+  - destruct (apply s op) as [s1|] eqn:Ea; [|discriminate]. intros H Hw Hv HG.
+    assert (R1 : Rel G s s1) by (eapply apply_rel; eauto; intros g Hg; eapply HG; simpl; eauto).
+    eapply Rel_trans; [exact R1|]. apply IH; [assumption|apply R1|apply R1|].
+    intros op' g Hop Hg. eapply HG; simpl; eauto.
+Qed.
+
+Definition only (g : fname) : fname -> Prop := fun h => h = g.
+
+(** effects of single ops on their own file *)
+Lemma do_create s g e :
+  wf s -> vinj s -> vdirs s (dir_of g) = true -> (e = true -> vns s g = None) ->
+  exists s', apply s (Create g e) = Some s' /\ openf s' g [] /\ Rel (only g) s s'.
+Proof.
+  intros Hw Hv Hd He.
+  assert (Hex : exists s', apply s (Create g e) = Some s' /\ openf s' g []).
+  { simpl. rewrite Hd. simpl. destruct (vns s g) as [j|] eqn:Ev.
+    - destruct e; [specialize (He eq_refl); discriminate|].
+      eexists. split; [reflexivity|]. exists j. simpl. split; [assumption|apply upd_cont_same].
+    - eexists. split; [reflexivity|]. exists (next_ino s). simpl.
+      split; [apply upd_name_same|apply upd_cont_same]. }
+  destruct Hex as (s' & Ha & Ho). exists s'. split; [assumption|]. split; [assumption|].
+  eapply apply_rel; eauto. intros h [<-|[]]; reflexivity.
+Qed.
+
+Lemma do_write s g c t :
+  wf s -> vinj s -> openf s g c ->
+  exists s', apply s (Write g t) = Some s' /\ openf s' g (c ++ [t]) /\ Rel (only g) s s'.
+Proof.
+  intros Hw Hv (i & H1 & H2).
+  assert (Hex : exists s', apply s (Write g t) = Some s' /\ openf s' g (c ++ [t])).
+  { simpl. rewrite H1. eexists. split; [reflexivity|]. exists i. simpl.
+    split; [assumption|]. rewrite upd_cont_same. now rewrite H2. }
+  destruct Hex as (s' & Ha & Ho). exists s'. split; [assumption|]. split; [assumption|].
+  eapply apply_rel; eauto. intros h [<-|[]]; reflexivity.
+Qed.
+
+Lemma do_writes s g c ts :
+  wf s -> vinj s -> openf s g c ->
+  exists s', run_fs s (write_all g ts) = Some s' /\ openf s' g (c ++ ts) /\ Rel (only g) s s'.
+Proof.
+  revert s c; induction ts as [|t ts IH]; intros s c Hw Hv Ho; unfold write_all; cbn [map run_fs].
+  - exists s. rewrite app_nil_r. split; [reflexivity|]. split; [assumption|now apply Rel_refl].
+  - destruct (do_write s g c t Hw Hv Ho) as (s1 & Ha & Ho1 & R1). rewrite Ha.
+    destruct (IH s1 (c ++ [t]) (r_wf _ _ _ R1) (r_vinj _ _ _ R1) Ho1) as (s2 & Hr & Ho2 & R2).
+    unfold write_all in Hr.
+    exists s2. split; [assumption|]. rewrite <- app_assoc in Ho2. split; [assumption|].
+    eapply Rel_trans; eauto.
+Qed.
+
+(** [FsyncFile g; FsyncDir (dir_of g)]: the file becomes fully synced *)
+Lemma do_sync s g c :
+  wf s -> vinj s -> openf s g c -> vdirs s (dir_of g) = true ->
+  exists s', run_fs s [FsyncFile g; FsyncDir (dir_of g)] = Some s' /\ synced s' g c /\
+             Rel (fun _ => False) s s'.
+Proof.
+  intros Hw Hv (i & H1 & H2) Hd.
+  assert (Hex : exists s', run_fs s [FsyncFile g; FsyncDir (dir_of g)] = Some s' /\ synced s' g c).
+  { simpl. rewrite H1. simpl. rewrite Hd. simpl. eexists. split; [reflexivity|].
+    exists i. simpl. rewrite dname_eqb_refl, upd_cont_same. auto. }
+  destruct Hex as (s' & Hr & Hs). exists s'. split; [assumption|]. split; [assumption|].
+  eapply run_rel; eauto. intros op h [<-|[<-|[]]] [].
+Qed.
+
+(** [FsyncFile g] then, later, some [FsyncDir]: split version used by [trace_persist] *)
+Lemma do_fsync_file s g c :
+  wf s -> vinj s -> openf s g c ->
+  exists s', apply s (FsyncFile g) = Some s' /\
+             (exists i, vns s' g = Some i /\ dcont s' i = c /\ vcont s' i = c) /\
+             Rel (fun _ => False) s s'.
+Proof.
+  intros Hw Hv (i & H1 & H2).
+  assert (Hex : exists s', apply s (FsyncFile g) = Some s' /\
+            (exists i, vns s' g = Some i /\ dcont s' i = c /\ vcont s' i = c)).
+  { simpl. rewrite H1. eexists. split; [reflexivity|]. exists i. simpl.
+    rewrite upd_cont_same. auto. }
+  destruct Hex as (s' & Ha & Hs). exists s'. split; [assumption|]. split; [assumption|].
+  eapply apply_rel; eauto; intros h [].
+Qed.
+
+Lemma run_fs_app s a b :
+  run_fs s (a ++ b) = match run_fs s a with Some s1 => run_fs s1 b | None => None end.
+Proof.
+  revert s; induction a as [|op a IH]; intros s; cbn [app run_fs]; [reflexivity|].
+  destruct (apply s op); [apply IH|reflexivity].
+Qed.
+
+(** ** A multi-writer producing a run of files (tables or blob files) *)
+Section Files.
+Variables (mk : N -> fname) (excl : bool) (d : dname).
+Hypothesis mk_inj : forall a b, mk a = mk b -> a = b.
+Hypothesis mk_dir : forall a, dir_of (mk a) = d.
+
+Definition finish_ops (w : wfile) : list fsop :=
+  write_all (mk (w_id w)) (w_tail w) ++ [FsyncFile (mk (w_id w)); FsyncDir d].
+
+Fixpoint files_from (cur : wfile) (rest : list wfile) : list fsop :=
+  write_all (mk (w_id cur)) (w_data cur) ++
+  match rest with
+  | [] => finish_ops cur
+  | nxt :: rest' => Create (mk (w_id nxt)) excl :: finish_ops cur ++ files_from nxt rest'
+  end.
+
+Definition GW (ws : list wfile) : fname -> Prop := fun h => exists w, In w ws /\ h = mk (w_id w).
+Definition wcontent (w : wfile) : list N := w_data w ++ w_tail w.
+
+Lemma finish_run s w c :
+  wf s -> vinj s -> vdirs s d = true -> openf s (mk (w_id w)) c ->
+  exists s', run_fs s (finish_ops w) = Some s' /\ synced s' (mk (w_id w)) (c ++ w_tail w) /\
+             Rel (only (mk (w_id w))) s s'.
+Proof.
+  intros Hw Hv Hd Ho. unfold finish_ops. rewrite run_fs_app.
+  destruct (do_writes s _ c (w_tail w) Hw Hv Ho) as (s1 & Hr1 & Ho1 & R1). rewrite Hr1.
+  destruct (do_sync s1 (mk (w_id w)) _ (r_wf _ _ _ R1) (r_vinj _ _ _ R1) Ho1) as (s2 & Hr2 & Hs2 & R2).
+  { rewrite mk_dir. now apply (r_vdirs _ _ _ R1). }
+  rewrite mk_dir in Hr2. exists s2. split; [assumption|]. split; [assumption|].
+  eapply Rel_trans; [exact R1|]. eapply Rel_mono; [|exact R2]. intros h [].
+Qed.
+
+Lemma files_from_run rest : forall cur s c0,
+  wf s -> vinj s -> vdirs s d = true -> openf s (mk (w_id cur)) c0 ->
+  NoDup (map w_id (cur :: rest)) -> (forall w, In w rest -> vns s (mk (w_id w)) = None) ->
+  exists s', run_fs s (files_from cur rest) = Some s' /\ Rel (GW (cur :: rest)) s s' /\
+             synced s' (mk (w_id cur)) (c0 ++ wcontent cur) /\
+             forall w, In w rest -> synced s' (mk (w_id w)) (wcontent w).
+Proof.
+  induction rest as [|nxt rest IH]; intros cur s c0 Hw Hv Hd Ho Hnd Hfresh; cbn [files_from].
+  - rewrite run_fs_app.
+    destruct (do_writes s _ c0 (w_data cur) Hw Hv Ho) as (s1 & Hr1 & Ho1 & R1). rewrite Hr1.
+    destruct (finish_run s1 cur _ (r_wf _ _ _ R1) (r_vinj _ _ _ R1) (r_vdirs _ _ _ R1 _ Hd) Ho1)
+      as (s2 & Hr2 & Hs2 & R2).
+    exists s2. split; [assumption|]. split; [|split].
+    + eapply Rel_mono; [|eapply Rel_trans; eauto].
+      intros h ->. exists cur. split; [now left|reflexivity].
+    + unfold wcontent. now rewrite app_assoc.
+    + intros w [].
+  - assert (Hne : mk (w_id nxt) <> mk (w_id cur)).
+    { intros E. apply mk_inj in E. inversion Hnd as [|? ? Hni _]. apply Hni. simpl. now left. }
+    rewrite run_fs_app.
+    destruct (do_writes s _ c0 (w_data cur) Hw Hv Ho) as (s1 & Hr1 & Ho1 & R1). rewrite Hr1.
+    cbn [run_fs].
+    destruct (do_create s1 (mk (w_id nxt)) excl (r_wf _ _ _ R1) (r_vinj _ _ _ R1))
+      as (s2 & Ha2 & Ho2 & R2).
+    { rewrite mk_dir. now apply (r_vdirs _ _ _ R1). }
+    { intros _. rewrite (r_vns _ _ _ R1) by exact Hne. apply Hfresh. now left. }
+    rewrite Ha2. rewrite run_fs_app.
+    assert (Ho1' : openf s2 (mk (w_id cur)) (c0 ++ w_data cur)).
+    { apply (r_open _ _ _ R2); [|assumption]. unfold only. congruence. }
+    destruct (finish_run s2 cur _ (r_wf _ _ _ R2) (r_vinj _ _ _ R2)
+                (r_vdirs _ _ _ R2 _ (r_vdirs _ _ _ R1 _ Hd)) Ho1') as (s3 & Hr3 & Hs3 & R3).
+    rewrite Hr3.
+    assert (Ho3 : openf s3 (mk (w_id nxt)) []).
+    { apply (r_open _ _ _ R3); [|assumption]. exact Hne. }
+    assert (R03 : Rel (GW [cur; nxt]) s s3).
+    { eapply Rel_trans; [eapply Rel_mono; [|exact R1]|
+        eapply Rel_trans; [eapply Rel_mono; [|exact R2]|eapply Rel_mono; [|exact R3]]];
+        intros h ->; [exists cur|exists nxt|exists cur]; simpl; auto. }
+    destruct (IH nxt s3 [] (r_wf _ _ _ R3) (r_vinj _ _ _ R3)) as (s4 & Hr4 & R4 & Hs4 & Hrest); auto.
+    { apply (r_vdirs _ _ _ R03). assumption. }
+    { now inversion Hnd. }
+    { intros w Hin. rewrite (r_vns _ _ _ R03); [apply Hfresh; now right|].
+      intros (w' & [<-|[<-|[]]] & E); apply mk_inj in E.
+      - inversion Hnd as [|? ? Hni _]. apply Hni. simpl. right. rewrite <- E. now apply in_map.
+      - inversion Hnd as [|? ? _ Hnd']. inversion Hnd' as [|? ? Hni _]. apply Hni.
+        rewrite <- E. now apply in_map. }
+    exists s4. split; [assumption|]. split; [|split].
+    + eapply Rel_trans; [eapply Rel_mono; [|exact R03]|eapply Rel_mono; [|exact R4]].
+      * intros h (w' & [<-|[<-|[]]] & ->); [exists cur|exists nxt]; simpl; auto.
+      * intros h (w' & Hin & ->). exists w'. simpl. auto.
+    + apply (r_synced _ _ _ R4).
+      * intros (w' & Hin & E). apply mk_inj in E. inversion Hnd as [|? ? Hni _]. apply Hni.
+        rewrite E. exact (in_map w_id (nxt :: rest) w' Hin).
+      * unfold wcontent. now rewrite app_assoc.
+    + intros w [<-|Hin]; [exact Hs4|now apply Hrest].
+Qed.
+End Files.
+
+Lemma write_all_touched g ts op h : In op (write_all g ts) -> In h (touched op) -> h = g.
+Proof.
+  unfold write_all. intros H Hh. apply in_map_iff in H as (t & <- & _).
+  destruct Hh as [<-|[]]. reflexivity.
+Qed.
+
+Lemma files_from_touched mk excl d rest : forall cur op h,
+  In op (files_from mk excl d cur rest) -> In h (touched op) -> GW mk (cur :: rest) h.
+Proof.
+  induction rest as [|nxt rest IH]; intros cur op h Hop Hh; cbn [files_from] in Hop.
+  - exists cur. split; [now left|].
+    apply in_app_or in Hop as [Hop|Hop]; [eapply write_all_touched; eauto|].
+    unfold finish_ops in Hop. apply in_app_or in Hop as [Hop|Hop]; [eapply write_all_touched; eauto|].
+    destruct Hop as [<-|[<-|[]]]; destruct Hh.
+  - apply in_app_or in Hop as [Hop|Hop].
+    { exists cur. split; [now left|]. eapply write_all_touched; eauto. }
+    destruct Hop as [<-|Hop].
+    { destruct Hh as [<-|[]]. exists nxt. split; [right; now left|reflexivity]. }
+    apply in_app_or in Hop as [Hop|Hop].
+    + exists cur. split; [now left|]. unfold finish_ops in Hop.
+      apply in_app_or in Hop as [Hop|Hop]; [eapply write_all_touched; eauto|].
+      destruct Hop as [<-|[<-|[]]]; destruct Hh.
+    + destruct (IH nxt op h Hop Hh) as (w & Hw & ->). exists w. split; [now right|reflexivity].
+Qed.
+
+Lemma tables_from_eq cur rest : tables_from cur rest = files_from TableFile true Tables cur rest.
+Proof.
+  revert cur; induction rest as [|nxt rest IH]; intros cur; cbn [tables_from files_from].
+  - reflexivity.
+  - now rewrite IH.
+Qed.
+
+Lemma blobs_from_eq cur rest : blobs_from true cur rest = files_from BlobFile false Blobs cur rest.
+Proof.
+  revert cur; induction rest as [|nxt rest IH]; intros cur; cbn [blobs_from files_from].
+  - reflexivity.
+  - now rewrite IH.
+Qed.
+
+(** a complete (multi-)writer: create the first file, then [files_from] *)
+Lemma writer_run mk excl d
+      (mk_inj : forall a b, mk a = mk b -> a = b) (mk_dir : forall a, dir_of (mk a) = d)
+      w rest s :
+  wf s -> vinj s -> vdirs s d = true -> NoDup (map w_id (w :: rest)) ->
+  (forall w', In w' (w :: rest) -> vns s (mk (w_id w')) = None) ->
+  exists s', run_fs s (Create (mk (w_id w)) excl :: files_from mk excl d w rest) = Some s' /\
+             Rel (GW mk (w :: rest)) s s' /\
+             forall w', In w' (w :: rest) -> synced s' (mk (w_id w')) (wcontent w').
+Proof.
+  intros Hw Hv Hd Hnd Hfresh. cbn [run_fs].
+  destruct (do_create s (mk (w_id w)) excl Hw Hv) as (s1 & Ha1 & Ho1 & R1).
+  { now rewrite mk_dir. } { intros _. apply Hfresh. now left. }
+  rewrite Ha1.
+  destruct (files_from_run mk excl d mk_inj mk_dir rest w s1 [] (r_wf _ _ _ R1) (r_vinj _ _ _ R1))
+    as (s2 & Hr2 & R2 & Hs2 & Hrest); auto.
+  { now apply (r_vdirs _ _ _ R1). }
+  { intros w' Hin. rewrite (r_vns _ _ _ R1); [apply Hfresh; now right|].
+    unfold only. intros E. apply mk_inj in E. inversion Hnd as [|? ? Hni _]. apply Hni.
+    rewrite <- E. now apply in_map. }
+  exists s2. split; [assumption|]. split.
+  - eapply Rel_trans; [eapply Rel_mono; [|exact R1]|exact R2].
+    intros h ->. exists w. split; [now left|reflexivity].
+  - intros w' [<-|Hin]; [exact Hs2|now apply Hrest].
+Qed.
+
+(** a segment of name-safe ops runs under the protocol iff it runs at all *)
+Lemma proto_step_safe o s ov pub op :
+  safe_op (protected o (ov, ov, pub)) op = true ->
+  proto_step o s (ov, ov, pub) op = Some (ov, ov, pub).
+Proof.
+  intros Hs.
+  assert (Hgen : (if safe_op (protected o (ov, ov, pub)) op then Some (ov, ov, pub) else None)
+                 = Some (ov, ov, pub)) by now rewrite Hs.
+  destruct op as [d|f e|f t|f|d|src dst|f]; unfold proto_step; try exact Hgen.
+  - destruct d; try exact Hgen; reflexivity.
+  - destruct src as [|a|a|a|k|a]; try exact Hgen.
+    destruct dst; try exact Hgen.
+    (* a rename onto [current] is never name-safe *)
+    exfalso. unfold safe_op, safe_name in Hs. simpl in Hs.
+    rewrite andb_true_iff in Hs. destruct Hs as [_ Hs]. discriminate.
+Qed.
+
+Lemma safe_segment o ov pub tr : forall s s',
+  (forall op, In op tr -> safe_op (protected o (ov, ov, pub)) op = true) ->
+  run_fs s tr = Some s' -> proto_run o s (ov, ov, pub) tr = Some (s', (ov, ov, pub)).
+Proof.
+  induction tr as [|op tr IH]; intros s s' Hs; cbn [run_fs proto_run].
+  - intros H; inversion H; reflexivity.
+  - rewrite proto_step_safe by (apply Hs; now left).
+    destruct (apply s op) as [s1|]; [|discriminate]. apply IH. intros op' H. apply Hs. now right.
+Qed.
+
+Lemma publish_ok_intro o s ov k it t v1 :
+  vns s (TempFile k) = Some it -> dcont s it = [t] -> vcont s it = [t] ->
+  current_points o t = Some v1 -> version_contents o v1 <> None ->
+  (forall f, In f (pnames o v1) -> stable o s f) ->
+  publish_ok o s (ov, ov, false) k = Some v1.
+Proof.
+  intros H1 H2 H3 H4 H5 H6. unfold publish_ok. simpl.
+  assert (E : opt_eqb ov ov = true) by now apply opt_eqb_eq. rewrite E. simpl.
+  unfold cur_of. rewrite upd_name_same, H1, H3, H2, H4. simpl. rewrite N.eqb_refl. simpl.
+  assert (Hf : forallb (stableb o s) (pnames o v1) = true)
+    by (apply forallb_forall; exact H6).
+  rewrite Hf. destruct (version_contents o v1); [reflexivity|congruence].
+Qed.
+
+Lemma Rel_stable o G s s' f : Rel G s s' -> ~ G f -> stable o s f -> stable o s' f.
+Proof.
+  intros R Hg Hs. destruct (stable_synced _ _ _ Hs) as (c & Hc & He).
+  apply stable_spec in Hs as (i & e & _ & _ & _ & _ & _ & Hd).
+  eapply synced_stable; [eapply (r_synced _ _ _ R); eauto|assumption|].
+  now apply (r_ddirs _ _ _ R).
+Qed.
+
+Definition persist_pre (vid : N) (vtoks : list N) (tmp ctok : N) : list fsop :=
+  [Create (VersionFile vid) false] ++ write_all (VersionFile vid) vtoks ++
+  [FsyncFile (VersionFile vid); FsyncDir Root;
+   Create (TempFile tmp) true; Write (TempFile tmp) ctok; FsyncFile (TempFile tmp)].
+
+Lemma trace_persist_split vid vtoks tmp ctok :
+  trace_persist vid vtoks tmp ctok =
+  persist_pre vid vtoks tmp ctok ++
+  [Rename (TempFile tmp) Current; FsyncFile Current; FsyncDir Root].
+Proof. unfold trace_persist, persist_pre. rewrite <- !app_assoc. reflexivity. Qed.
+
+Definition GP (vid tmp : N) : fname -> Prop :=
+  fun h => h = VersionFile vid \/ h = TempFile tmp.
+
+Lemma persist_pre_run s vid vtoks tmp ctok :
+  wf s -> vinj s -> vdirs s Root = true -> vns s (TempFile tmp) = None ->
+  exists s', run_fs s (persist_pre vid vtoks tmp ctok) = Some s' /\ Rel (GP vid tmp) s s' /\
+             synced s' (VersionFile vid) vtoks /\
+             exists it, vns s' (TempFile tmp) = Some it /\ dcont s' it = [ctok] /\ vcont s' it = [ctok].
+Proof.
+  intros Hw Hv Hd Ht. unfold persist_pre. cbn [app run_fs].
+  destruct (do_create s (VersionFile vid) false Hw Hv Hd) as (s1 & Ha1 & Ho1 & R1);
+    [discriminate|]. rewrite Ha1. rewrite run_fs_app.
+  destruct (do_writes s1 _ [] vtoks (r_wf _ _ _ R1) (r_vinj _ _ _ R1) Ho1) as (s2 & Hr2 & Ho2 & R2).
+  rewrite Hr2. simpl app in Ho2.
+  assert (R02 : Rel (GP vid tmp) s s2).
+  { eapply Rel_trans; [eapply Rel_mono; [|exact R1]|eapply Rel_mono; [|exact R2]];
+      intros h E; unfold only in E; subst h; now left. }
+  destruct (do_sync s2 (VersionFile vid) vtoks (r_wf _ _ _ R2) (r_vinj _ _ _ R2) Ho2)
+    as (s3 & Hr3 & Hs3 & R3); [apply (r_vdirs _ _ _ R02); assumption|].
+  change (dir_of (VersionFile vid)) with Root in Hr3.
+  change (run_fs s2 (FsyncFile (VersionFile vid) :: FsyncDir Root ::
+            [Create (TempFile tmp) true; Write (TempFile tmp) ctok; FsyncFile (TempFile tmp)]))
+    with (run_fs s2 ([FsyncFile (VersionFile vid); FsyncDir Root] ++
+            [Create (TempFile tmp) true; Write (TempFile tmp) ctok; FsyncFile (TempFile tmp)])).
+  rewrite run_fs_app, Hr3. cbn [run_fs].
+  assert (R03 : Rel (GP vid tmp) s s3).
+  { eapply Rel_trans; [exact R02|]. eapply Rel_mono; [|exact R3]. intros h []. }
+  assert (Ht3 : vns s3 (TempFile tmp) = None).
+  { rewrite (r_vns _ _ _ R3) by tauto. rewrite (r_vns _ _ _ R2) by (unfold only; discriminate).
+    rewrite (r_vns _ _ _ R1) by (unfold only; discriminate). exact Ht. }
+  destruct (do_create s3 (TempFile tmp) true (r_wf _ _ _ R3) (r_vinj _ _ _ R3))
+    as (s4 & Ha4 & Ho4 & R4); [apply (r_vdirs _ _ _ R03); assumption|auto|].
+  rewrite Ha4.
+  destruct (do_write s4 _ [] ctok (r_wf _ _ _ R4) (r_vinj _ _ _ R4) Ho4) as (s5 & Ha5 & Ho5 & R5).
+  rewrite Ha5. simpl app in Ho5.
+  destruct (do_fsync_file s5 _ _ (r_wf _ _ _ R5) (r_vinj _ _ _ R5) Ho5) as (s6 & Ha6 & Hs6 & R6).
+  rewrite Ha6. exists s6. split; [reflexivity|].
+  assert (R36 : Rel (only (TempFile tmp)) s3 s6).
+  { eapply Rel_trans; [exact R4|]. eapply Rel_trans; [exact R5|].
+    eapply Rel_mono; [|exact R6]. intros h []. }
+  split; [|split].
+  - eapply Rel_trans; [exact R03|]. eapply Rel_mono; [|exact R36]. intros h ->. now right.
+  - apply (r_synced _ _ _ R36); [unfold only; discriminate|assumption].
+  - exact Hs6.
+Qed.
+
+Lemma safe_op_names P op :
+  (forall g, In g (touched op) -> ~ In g P) -> safe_op P op = true.
+Proof.
+  intros H. unfold safe_op, safe_name. apply forallb_forall. intros g Hg.
+  apply negb_true_iff. destruct (existsb (fname_eqb g) P) eqn:E; [|reflexivity].
+  apply existsb_exists in E as (x & Hx & Ex). apply fname_eqb_eq in Ex. subst x.
+  exfalso. eapply H; eauto.
+Qed.
+
+Lemma not_protected o ov pub g :
+  g <> Current -> ~ In g (opnames o ov) -> ~ In g (protected o (ov, ov, pub)).
+Proof.
+  intros H1 H2 [H|H]; [congruence|]. apply in_app_or in H. tauto.
+Qed.
+
+Definition GPC (vid tmp : N) : fname -> Prop :=
+  fun h => h = VersionFile vid \/ h = TempFile tmp \/ h = Current.
+
+(** [persist_version] publishes [vid] from any state satisfying the invariant in which
+    the other files named by [vid] are already stable *)
+Lemma persist_proto o s ov vid vtoks tmp ctok :
+  inv o s (ov, ov, false) -> vdirs s Root = true ->
+  ~ In (VersionFile vid) (opnames o ov) -> vns s (TempFile tmp) = None ->
+  expected o (VersionFile vid) = Some vtoks -> current_points o ctok = Some vid ->
+  version_contents o vid <> None ->
+  (forall f, In f (pnames o vid) -> f <> VersionFile vid -> stable o s f) ->
+  exists s', proto_run o s (ov, ov, false) (trace_persist vid vtoks tmp ctok)
+             = Some (s', (Some vid, Some vid, true)) /\ Rel (GPC vid tmp) s s'.
+Proof.
+  intros Hinv Hd Hnp Ht He Hc Hvc Hst.
+  pose proof Hinv as ((Hw & Hv & _) & _).
+  destruct (persist_pre_run s vid vtoks tmp ctok Hw Hv Hd Ht)
+    as (s1 & Hr1 & R1 & Hs1 & it & Hit & Hdc & Hvc1).
+  rewrite trace_persist_split, proto_run_app.
+  assert (Hsafe : forall op, In op (persist_pre vid vtoks tmp ctok) ->
+                             safe_op (protected o (ov, ov, false)) op = true).
+  { intros op Hop. apply safe_op_names. intros g Hg.
+    assert (Hcase : g = VersionFile vid \/ g = TempFile tmp).
+    { unfold persist_pre in Hop. simpl in Hop.
+      destruct Hop as [<-|Hop]; [simpl in Hg; destruct Hg as [<-|[]]; auto|].
+      apply in_app_or in Hop as [Hop|Hop].
+      - unfold write_all in Hop. apply in_map_iff in Hop as (t & <- & _).
+        simpl in Hg; destruct Hg as [<-|[]]; auto.
+      - simpl in Hop.
+        repeat (destruct Hop as [<-|Hop]; [simpl in Hg; try (destruct Hg as [<-|[]]; auto); destruct Hg|]).
+        destruct Hop. }
+    destruct Hcase as [->| ->]; apply not_protected; try discriminate; try assumption.
+    destruct ov as [v|]; simpl; [|tauto]. intros H. apply pnames_not_special in H as [_ H].
+    now apply (H tmp). }
+  rewrite (safe_segment o ov false _ s s1 Hsafe Hr1).
+  pose proof (proto_run_inv _ _ _ _ _ _ Hinv (safe_segment o ov false _ s s1 Hsafe Hr1)) as Hinv1.
+  (* the publishing rename *)
+  assert (Hpub : publish_ok o s1 (ov, ov, false) tmp = Some vid).
+  { eapply publish_ok_intro; eauto. intros f Hf.
+    destruct (fname_eq_dec f (VersionFile vid)) as [->|Hne].
+    - eapply synced_stable; eauto. simpl. apply (r_ddirs _ _ _ R1). apply Hw.
+    - eapply Rel_stable; [exact R1| |apply Hst; assumption].
+      intros [E|E]; [contradiction|]. subst f. apply pnames_not_special in Hf as [_ Hf].
+      now apply (Hf tmp). }
+  cbn [proto_run]. unfold proto_step at 1. rewrite Hpub.
+  assert (Ha2 : exists s2, apply s1 (Rename (TempFile tmp) Current) = Some s2).
+  { simpl. rewrite Hit. eauto. }
+  destruct Ha2 as (s2 & Ha2). rewrite Ha2.
+  pose proof (inv_publish _ _ _ _ _ _ _ _ Hinv1 Hpub Ha2) as Hinv2.
+  assert (Hcur2 : vns s2 Current = Some it).
+  { simpl in Ha2. rewrite Hit in Ha2. inversion Ha2; subst s2. simpl. apply upd_name_same. }
+  (* fsync of [current], fsync of the root *)
+  assert (Hstep3 : proto_step o s2 (ov, Some vid, true) (FsyncFile Current) = Some (ov, Some vid, true))
+    by reflexivity.
+  rewrite Hstep3.
+  assert (Ha3 : exists s3, apply s2 (FsyncFile Current) = Some s3) by (simpl; rewrite Hcur2; eauto).
+  destruct Ha3 as (s3 & Ha3). rewrite Ha3.
+  assert (Hstep4 : proto_step o s3 (ov, Some vid, true) (FsyncDir Root) = Some (Some vid, Some vid, true))
+    by reflexivity.
+  rewrite Hstep4.
+  pose proof Hinv2 as ((Hw2 & Hv2 & _) & _).
+  assert (R23 : Rel (fun _ => False) s2 s3) by (eapply apply_rel; eauto; intros g []).
+  assert (R12 : Rel (GPC vid tmp) s1 s2).
+  { eapply apply_rel; eauto. apply Hinv1. apply Hinv1.
+    intros g [<-|[<-|[]]]; unfold GPC; auto. }
+  assert (Hd3 : vdirs s3 Root = true).
+  { apply (r_vdirs _ _ _ R23), (r_vdirs _ _ _ R12), (r_vdirs _ _ _ R1). assumption. }
+  assert (Ha4 : exists s4, apply s3 (FsyncDir Root) = Some s4) by (simpl; rewrite Hd3; simpl; eauto).
+  destruct Ha4 as (s4 & Ha4). rewrite Ha4. exists s4. split; [reflexivity|].
+  eapply Rel_trans; [eapply Rel_mono; [|exact R1]|]; [intros h [E|E]; unfold GPC; auto|].
+  eapply Rel_trans; [exact R12|]. eapply Rel_trans; [eapply Rel_mono; [|exact R23]|]; [intros h []|].
+  assert (R34 : Rel (fun _ => False) s3 s4).
+  { eapply apply_rel; [exact Ha4|apply R23|apply R23|]. intros g []. }
+  eapply Rel_mono; [|exact R34]. intros h [].
+Qed.
+
+Lemma vdirs_run s tr s' d : run_fs s tr = Some s' -> vdirs s d = true -> vdirs s' d = true.
+Proof.
+  revert s; induction tr as [|op tr IH]; intros s; cbn [run_fs].
+  - intros H; inversion H; subst; auto.
+  - destruct (apply s op) as [s1|] eqn:Ea; [|discriminate]. intros H Hd.
+    apply (IH s1 H). eapply vdirs_apply; eauto.
+Qed.
+
+Lemma unlinks_run dels : forall s,
+  NoDup dels -> (forall f, In f dels -> vns s f <> None) ->
+  exists s', run_fs s (map Unlink dels) = Some s'.
+Proof.
+  induction dels as [|f dels IH]; intros s Hnd Hb; cbn [map run_fs]; [eauto|].
+  inversion Hnd as [|? ? Hni Hnd']; subst.
+  destruct (vns s f) as [i|] eqn:Ev; [|exfalso; apply (Hb f); [now left|assumption]].
+  simpl apply. rewrite Ev. apply IH; [assumption|].
+  intros g Hg. simpl. rewrite upd_name_other; [apply Hb; now right|].
+  intros ->. contradiction.
+Qed.
+
+(** ** Every trace of the shape
+    [safe preparation ++ persist_version ++ unlinks of unreferenced files]
+    satisfies the protocol.  This shape covers flush, merge, move, drop, clear, ingest
+    (and create_new with [ov = None]). *)
+Theorem publish_shape_ok o s ov pre vid vtoks tmp ctok dels s1 :
+  disk_ok o s ov -> vdirs s Root = true ->
+  (forall op, In op pre -> safe_op (protected o (ov, ov, false)) op = true) ->
+  run_fs s pre = Some s1 ->
+  ~ In (VersionFile vid) (opnames o ov) -> vns s1 (TempFile tmp) = None ->
+  expected o (VersionFile vid) = Some vtoks -> current_points o ctok = Some vid ->
+  version_contents o vid <> None ->
+  (forall f, In f (pnames o vid) -> f <> VersionFile vid -> stable o s1 f) ->
+  NoDup dels ->
+  (forall f, In f dels -> vns s1 f <> None /\ f <> Current /\ f <> VersionFile vid /\
+                          f <> TempFile tmp /\ ~ In f (pnames o vid)) ->
+  protocol_ok o s (pre ++ trace_persist vid vtoks tmp ctok ++ map Unlink dels) = true.
+Proof.
+  intros Hd Hroot Hsafe Hrun Hnp Ht He Hc Hvc Hst Hnd Hdel.
+  unfold disk_ok in Hd. pose proof Hd as (_ & Hcd & Hcv & _).
+  unfold protocol_ok.
+  rewrite (cur_points_cur_of _ _ _ _ Hcd), (cur_points_cur_of _ _ _ _ Hcv).
+  assert (E : opt_eqb ov ov = true) by now apply opt_eqb_eq. rewrite E. cbn [andb].
+  pose proof (safe_segment o ov false pre s s1 Hsafe Hrun) as Hp1.
+  rewrite proto_run_app, Hp1.
+  pose proof (proto_run_inv _ _ _ _ _ _ Hd Hp1) as Hinv1.
+  destruct (persist_proto o s1 ov vid vtoks tmp ctok Hinv1 (vdirs_run _ _ _ _ Hrun Hroot)
+              Hnp Ht He Hc Hvc Hst) as (s2 & Hp2 & R2).
+  rewrite proto_run_app, Hp2.
+  destruct (unlinks_run dels s2 Hnd) as (s3 & Hr3).
+  { intros f Hf. destruct (Hdel f Hf) as (H1 & H2 & H3 & H4 & H5).
+    rewrite (r_vns _ _ _ R2); [assumption|]. unfold GPC. intuition. }
+  rewrite (safe_segment o (Some vid) true (map Unlink dels) s2 s3); [now apply opt_eqb_eq| |assumption].
+  intros op Hop. apply in_map_iff in Hop as (f & <- & Hf).
+  destruct (Hdel f Hf) as (H1 & H2 & H3 & H4 & H5).
+  apply safe_op_names. intros g [<-|[]]. apply not_protected; assumption.
+Qed.
+
+Lemma version_in_pnames o a v : In (VersionFile a) (pnames o v) -> a = v.
+Proof.
+  unfold pnames. destruct (version_contents o v) as [vd|]; [|intros []].
+  intros [E|H]; [congruence|].
+  apply in_app_or in H as [H|H]; apply in_map_iff in H as (x & E & _); discriminate.
+Qed.
+
+Lemma stable_bound o s f : stable o s f -> vns s f <> None.
+Proof. intros H. apply stable_spec in H as (i & e & _ & H & _). congruence. Qed.
+
+(** the oracle's description of the new version [vid] w.r.t. the old one [ov] and the
+    freshly written files [new] *)
+Definition new_version_ok (o : oracle) (ov : option N) (vid : N) (vtoks : list N) (ctok : N)
+           (new : list fname) : Prop :=
+  ov <> Some vid /\ expected o (VersionFile vid) = Some vtoks /\
+  current_points o ctok = Some vid /\ version_contents o vid <> None /\
+  forall f, In f (pnames o vid) -> f = VersionFile vid \/ In f (opnames o ov) \/ In f new.
+
+(** generic: preparation touching only FRESH names [G], leaving the [new] files stable *)
+Theorem publish_shape_fresh o s ov (G : fname -> Prop) pre s1 new vid vtoks tmp ctok dels :
+  disk_ok o s ov -> vdirs s Root = true ->
+  (forall g, G g -> vns s g = None /\ g <> Current /\ g <> TempFile tmp) ->
+  (forall op g, In op pre -> In g (touched op) -> G g) ->
+  run_fs s pre = Some s1 -> Rel G s s1 ->
+  (forall f, In f new -> stable o s1 f) ->
+  vns s (TempFile tmp) = None ->
+  new_version_ok o ov vid vtoks ctok new ->
+  NoDup dels ->
+  (forall f, In f dels -> vns s f <> None /\ f <> Current /\ f <> VersionFile vid /\
+                          ~ In f (pnames o vid)) ->
+  protocol_ok o s (pre ++ trace_persist vid vtoks tmp ctok ++ map Unlink dels) = true.
+Proof.
+  intros Hd Hroot HG Htouch Hrun R Hnew Ht (Hov & He & Hc & Hvc & Hpn) Hnd Hdel.
+  pose proof Hd as (_ & _ & _ & Hpin & _).
+  assert (Hprot : forall f, In f (opnames o ov) -> stable o s f).
+  { destruct ov as [v|]; simpl in *; [apply Hpin|intros f []]. }
+  eapply publish_shape_ok; eauto.
+  - intros op Hop. apply safe_op_names. intros g Hg.
+    destruct (HG g (Htouch op g Hop Hg)) as (H1 & H2 & H3).
+    apply not_protected; [assumption|]. intros Hin. apply (stable_bound _ _ _ (Hprot _ Hin)). exact H1.
+  - destruct ov as [v|]; simpl; [|tauto]. intros H. apply version_in_pnames in H. congruence.
+  - rewrite (r_vns _ _ _ R); [assumption|]. intros Hg. destruct (HG _ Hg) as (_ & _ & H). congruence.
+  - intros f Hf Hne. destruct (Hpn f Hf) as [->|[Hin|Hin]]; [congruence| |now apply Hnew].
+    eapply Rel_stable; [exact R| |now apply Hprot].
+    intros Hg. destruct (HG _ Hg) as (H & _). apply (stable_bound _ _ _ (Hprot _ Hin)). exact H.
+  - intros f Hf. destruct (Hdel f Hf) as (H1 & H2 & H3 & H4).
+    assert (HnG : ~ G f) by (intros Hg; destruct (HG _ Hg) as (H & _); congruence).
+    rewrite (r_vns _ _ _ R) by exact HnG. repeat split; auto.
+    intros ->. congruence.
+Qed.
+
+Lemma TableFile_inj a b : TableFile a = TableFile b -> a = b.
+Proof. congruence. Qed.
+Lemma BlobFile_inj a b : BlobFile a = BlobFile b -> a = b.
+Proof. congruence. Qed.
+
+Definition tnames (ws : list wfile) : list fname := map (fun w => TableFile (w_id w)) ws.
+Definition bnames (ws : list wfile) : list fname := map (fun w => BlobFile (w_id w)) ws.
+
+(** freshness + oracle agreement of a batch of files to be written *)
+Definition batch_ok (o : oracle) (s : fsstate) (mk : N -> fname) (ws : list wfile) : Prop :=
+  NoDup (map w_id ws) /\
+  forall w, In w ws -> vns s (mk (w_id w)) = None /\ expected o (mk (w_id w)) = Some (wcontent w).
+
+Definition dels_ok (o : oracle) (s : fsstate) (vid : N) (dels : list fname) : Prop :=
+  NoDup dels /\
+  forall f, In f dels -> vns s f <> None /\ f <> Current /\ f <> VersionFile vid /\
+                         ~ In f (pnames o vid).
+
+Lemma trace_maintenance_eq old_vids :
+  trace_maintenance old_vids = map Unlink (map VersionFile old_vids).
+Proof. unfold trace_maintenance. now rewrite map_map. Qed.
+
+Lemma trace_drop_files_eq ts bs :
+  trace_drop_files ts bs = map Unlink (map TableFile ts ++ map BlobFile bs).
+Proof. unfold trace_drop_files. now rewrite map_app, !map_map. Qed.
+
+(** *** flush of a standard tree *)
+Theorem trace_flush_protocol_ok o s ov w rest vid vtoks tmp ctok old_vids :
+  disk_ok o s ov -> vdirs s Root = true -> vdirs s Tables = true -> ddirs s Tables = true ->
+  batch_ok o s TableFile (w :: rest) -> vns s (TempFile tmp) = None ->
+  new_version_ok o ov vid vtoks ctok (tnames (w :: rest)) ->
+  dels_ok o s vid (map VersionFile old_vids) ->
+  protocol_ok o s (trace_flush (w :: rest) vid vtoks tmp ctok old_vids) = true.
+Proof.
+  intros Hd Hroot Hvt Hdt [Hnd Hb] Ht Hnv [Hdn Hdel].
+  pose proof Hd as ((Hw & Hv & _) & _).
+  unfold trace_flush, trace_tables. rewrite tables_from_eq, trace_maintenance_eq.
+  destruct (writer_run TableFile true Tables TableFile_inj (fun _ => eq_refl) w rest s Hw Hv Hvt Hnd)
+    as (s1 & Hr & R & Hs); [intros w' Hin; apply Hb; assumption|].
+  apply (publish_shape_fresh o s ov (GW TableFile (w :: rest)) _ s1 (tnames (w :: rest)));
+    try assumption.
+  - intros g (w' & Hin & ->). destruct (Hb w' Hin) as [H1 _]. repeat split; [assumption|discriminate..].
+  - intros op g [<-|Hop] Hg.
+    + destruct Hg as [<-|[]]. exists w. split; [now left|reflexivity].
+    + eapply files_from_touched; eauto.
+  - intros f Hf. apply in_map_iff in Hf as (w' & <- & Hin).
+    eapply synced_stable; [apply Hs; assumption|apply Hb; assumption|].
+    simpl. now apply (r_ddirs _ _ _ R).
+Qed.
+
+(** *** move / drop / clear: no new files *)
+Theorem trace_move_or_drop_protocol_ok o s ov vid vtoks tmp ctok old_vids dts dbs :
+  disk_ok o s ov -> vdirs s Root = true -> vns s (TempFile tmp) = None ->
+  new_version_ok o ov vid vtoks ctok [] ->
+  dels_ok o s vid (map VersionFile old_vids ++ map TableFile dts ++ map BlobFile dbs) ->
+  protocol_ok o s (trace_move_or_drop vid vtoks tmp ctok old_vids dts dbs) = true.
+Proof.
+  intros Hd Hroot Ht Hnv [Hdn Hdel]. pose proof Hd as ((Hw & Hv & _) & _).
+  unfold trace_move_or_drop. rewrite trace_maintenance_eq, trace_drop_files_eq, <- map_app.
+  change (trace_persist vid vtoks tmp ctok ++ ?x) with ([] ++ trace_persist vid vtoks tmp ctok ++ x).
+  apply (publish_shape_fresh o s ov (fun _ => False) [] s []); try assumption.
+  - intros g [].
+  - intros op g [].
+  - reflexivity.
+  - now apply Rel_refl.
+  - intros f [].
+Qed.
+
+Theorem trace_clear_protocol_ok o s ov vid vtoks tmp ctok :
+  disk_ok o s ov -> vdirs s Root = true -> vns s (TempFile tmp) = None ->
+  new_version_ok o ov vid vtoks ctok [] ->
+  protocol_ok o s (trace_clear vid vtoks tmp ctok) = true.
+Proof.
+  intros Hd Hroot Ht Hnv.
+  pose proof (trace_move_or_drop_protocol_ok o s ov vid vtoks tmp ctok [] [] [] Hd Hroot Ht Hnv) as H.
+  unfold trace_move_or_drop, trace_maintenance, trace_drop_files in H. simpl in H.
+  rewrite app_nil_r in H. apply H. split; [constructor|intros f []].
+Qed.
+
+(** two open writers (one table run, one blob-file run) finished one after the other *)
+Lemma two_writers mk1 e1 d1 mk2 e2 d2
+      (inj1 : forall a b, mk1 a = mk1 b -> a = b) (dir1 : forall a, dir_of (mk1 a) = d1)
+      (inj2 : forall a b, mk2 a = mk2 b -> a = b) (dir2 : forall a, dir_of (mk2 a) = d2)
+      (disj : forall a b, mk1 a <> mk2 b)
+      a ra b rb s :
+  wf s -> vinj s -> vdirs s d1 = true -> vdirs s d2 = true ->
+  openf s (mk1 (w_id a)) [] -> openf s (mk2 (w_id b)) [] ->
+  NoDup (map w_id (a :: ra)) -> NoDup (map w_id (b :: rb)) ->
+  (forall w, In w ra -> vns s (mk1 (w_id w)) = None) ->
+  (forall w, In w rb -> vns s (mk2 (w_id w)) = None) ->
+  exists s', run_fs s (files_from mk1 e1 d1 a ra ++ files_from mk2 e2 d2 b rb) = Some s' /\
+             Rel (fun h => GW mk1 (a :: ra) h \/ GW mk2 (b :: rb) h) s s' /\
+             (forall w, In w (a :: ra) -> synced s' (mk1 (w_id w)) (wcontent w)) /\
+             (forall w, In w (b :: rb) -> synced s' (mk2 (w_id w)) (wcontent w)).
+Proof.
+  intros Hw Hv Hd1 Hd2 Ho1 Ho2 Hn1 Hn2 Hf1 Hf2. rewrite run_fs_app.
+  destruct (files_from_run mk1 e1 d1 inj1 dir1 ra a s [] Hw Hv Hd1 Ho1 Hn1 Hf1)
+    as (s1 & Hr1 & R1 & Hs1 & Hrest1).
+  rewrite Hr1.
+  assert (HnG : forall w, ~ GW mk1 (a :: ra) (mk2 (w_id w))).
+  { intros w (w' & _ & E). symmetry in E. now apply disj in E. }
+  destruct (files_from_run mk2 e2 d2 inj2 dir2 rb b s1 [] (r_wf _ _ _ R1) (r_vinj _ _ _ R1))
+    as (s2 & Hr2 & R2 & Hs2 & Hrest2); auto.
+  { now apply (r_vdirs _ _ _ R1). }
+  { apply (r_open _ _ _ R1); [apply HnG|assumption]. }
+  { intros w Hin. rewrite (r_vns _ _ _ R1) by apply HnG. now apply Hf2. }
+  exists s2. split; [assumption|]. split; [|split].
+  - eapply Rel_trans; [eapply Rel_mono; [|exact R1]|eapply Rel_mono; [|exact R2]]; intros h Hh; tauto.
+  - intros w Hin. apply (r_synced _ _ _ R2).
+    + intros (w' & _ & E). now apply disj in E.
+    + destruct Hin as [<-|Hin]; [exact Hs1|now apply Hrest1].
+  - intros w [<-|Hin]; [exact Hs2|now apply Hrest2].
+Qed.
+
+Lemma table_blob_disj a b : TableFile a <> BlobFile b.
+Proof. discriminate. Qed.
+Lemma blob_table_disj a b : BlobFile a <> TableFile b.
+Proof. discriminate. Qed.
+
+(** both first files created (in either order), then the two writers *)
+Lemma two_writers_created mk1 e1 d1 mk2 e2 d2
+      (inj1 : forall a b, mk1 a = mk1 b -> a = b) (dir1 : forall a, dir_of (mk1 a) = d1)
+      (inj2 : forall a b, mk2 a = mk2 b -> a = b) (dir2 : forall a, dir_of (mk2 a) = d2)
+      (disj : forall a b, mk1 a <> mk2 b)
+      (swap : bool) a ra b rb s :
+  wf s -> vinj s -> vdirs s d1 = true -> vdirs s d2 = true ->
+  NoDup (map w_id (a :: ra)) -> NoDup (map w_id (b :: rb)) ->
+  (forall w, In w (a :: ra) -> vns s (mk1 (w_id w)) = None) ->
+  (forall w, In w (b :: rb) -> vns s (mk2 (w_id w)) = None) ->
+  exists s', run_fs s ((if swap then [Create (mk2 (w_id b)) e2; Create (mk1 (w_id a)) e1]
+                        else [Create (mk1 (w_id a)) e1; Create (mk2 (w_id b)) e2]) ++
+                       files_from mk1 e1 d1 a ra ++ files_from mk2 e2 d2 b rb) = Some s' /\
+             Rel (fun h => GW mk1 (a :: ra) h \/ GW mk2 (b :: rb) h) s s' /\
+             (forall w, In w (a :: ra) -> synced s' (mk1 (w_id w)) (wcontent w)) /\
+             (forall w, In w (b :: rb) -> synced s' (mk2 (w_id w)) (wcontent w)).
+Proof.
+  intros Hw Hv Hd1 Hd2 Hn1 Hn2 Hf1 Hf2.
+  assert (Hcre : exists s2, run_fs s (if swap then [Create (mk2 (w_id b)) e2; Create (mk1 (w_id a)) e1]
+                        else [Create (mk1 (w_id a)) e1; Create (mk2 (w_id b)) e2]) = Some s2 /\
+                 Rel (fun h => h = mk1 (w_id a) \/ h = mk2 (w_id b)) s s2 /\
+                 openf s2 (mk1 (w_id a)) [] /\ openf s2 (mk2 (w_id b)) []).
+  { destruct swap; cbn [run_fs].
+    - destruct (do_create s (mk2 (w_id b)) e2 Hw Hv) as (s1 & Ha1 & Ho1 & R1);
+        [now rewrite dir2|intros _; apply Hf2; now left|]. rewrite Ha1.
+      destruct (do_create s1 (mk1 (w_id a)) e1 (r_wf _ _ _ R1) (r_vinj _ _ _ R1)) as (s2 & Ha2 & Ho2 & R2).
+      { rewrite dir1. now apply (r_vdirs _ _ _ R1). }
+      { intros _. rewrite (r_vns _ _ _ R1); [apply Hf1; now left|]. unfold only. apply disj. }
+      rewrite Ha2. exists s2. split; [reflexivity|]. split; [|split; [assumption|]].
+      + eapply Rel_trans; [eapply Rel_mono; [|exact R1]|eapply Rel_mono; [|exact R2]];
+          unfold only; intros h Hh; tauto.
+      + apply (r_open _ _ _ R2); [|assumption]. unfold only. intros E. symmetry in E. now apply disj in E.
+    - destruct (do_create s (mk1 (w_id a)) e1 Hw Hv) as (s1 & Ha1 & Ho1 & R1);
+        [now rewrite dir1|intros _; apply Hf1; now left|]. rewrite Ha1.
+      destruct (do_create s1 (mk2 (w_id b)) e2 (r_wf _ _ _ R1) (r_vinj _ _ _ R1)) as (s2 & Ha2 & Ho2 & R2).
+      { rewrite dir2. now apply (r_vdirs _ _ _ R1). }
+      { intros _. rewrite (r_vns _ _ _ R1); [apply Hf2; now left|]. unfold only.
+        intros E. symmetry in E. now apply disj in E. }
+      rewrite Ha2. exists s2. split; [reflexivity|]. split; [|split; [|assumption]].
+      + eapply Rel_trans; [eapply Rel_mono; [|exact R1]|eapply Rel_mono; [|exact R2]];
+          unfold only; intros h Hh; tauto.
+      + apply (r_open _ _ _ R2); [|assumption]. unfold only. apply disj. }
+  destruct Hcre as (s2 & Hr2 & R2 & Ho1 & Ho2). rewrite run_fs_app, Hr2.
+  assert (Hne1 : forall w, In w ra -> ~ (mk1 (w_id w) = mk1 (w_id a) \/ mk1 (w_id w) = mk2 (w_id b))).
+  { intros w Hin [E|E]; [|now apply disj in E]. apply inj1 in E.
+    inversion Hn1 as [|? ? Hni _]. apply Hni. rewrite <- E. now apply in_map. }
+  assert (Hne2 : forall w, In w rb -> ~ (mk2 (w_id w) = mk1 (w_id a) \/ mk2 (w_id w) = mk2 (w_id b))).
+  { intros w Hin [E|E]; [symmetry in E; now apply disj in E|]. apply inj2 in E.
+    inversion Hn2 as [|? ? Hni _]. apply Hni. rewrite <- E. now apply in_map. }
+  destruct (two_writers mk1 e1 d1 mk2 e2 d2 inj1 dir1 inj2 dir2 disj a ra b rb s2
+              (r_wf _ _ _ R2) (r_vinj _ _ _ R2)) as (s3 & Hr3 & R3 & Hs1 & Hs2); auto.
+  { now apply (r_vdirs _ _ _ R2). } { now apply (r_vdirs _ _ _ R2). }
+  { intros w Hin. rewrite (r_vns _ _ _ R2) by (apply Hne1; assumption). apply Hf1. now right. }
+  { intros w Hin. rewrite (r_vns _ _ _ R2) by (apply Hne2; assumption). apply Hf2. now right. }
+  exists s3. split; [assumption|]. split; [|split; assumption].
+  eapply Rel_trans; [eapply Rel_mono; [|exact R2]|exact R3].
+  intros h [->| ->]; [left; exists a|right; exists b]; simpl; auto.
+Qed.
+
+Lemma touched_two mk1 e1 d1 mk2 e2 d2 (swap : bool) a ra b rb op g :
+  In op ((if swap then [Create (mk2 (w_id b)) e2; Create (mk1 (w_id a)) e1]
+          else [Create (mk1 (w_id a)) e1; Create (mk2 (w_id b)) e2]) ++
+         files_from mk1 e1 d1 a ra ++ files_from mk2 e2 d2 b rb) ->
+  In g (touched op) -> GW mk1 (a :: ra) g \/ GW mk2 (b :: rb) g.
+Proof.
+  intros Hop Hg. apply in_app_or in Hop as [Hop|Hop].
+  - assert (Hc : op = Create (mk1 (w_id a)) e1 \/ op = Create (mk2 (w_id b)) e2)
+      by (destruct swap; simpl in Hop; intuition).
+    destruct Hc as [->| ->]; destruct Hg as [<-|[]]; [left; exists a|right; exists b]; simpl; auto.
+  - apply in_app_or in Hop as [Hop|Hop]; [left|right]; eapply files_from_touched; eauto.
+Qed.
+
+(** *** flush of a blob tree, WITH the missing [fsync_directory(blobs/)] inserted *)
+Theorem trace_flush_blob_fixed_protocol_ok o s ov w rest b brest vid vtoks tmp ctok old_vids :
+  disk_ok o s ov -> vdirs s Root = true ->
+  vdirs s Tables = true -> ddirs s Tables = true -> vdirs s Blobs = true -> ddirs s Blobs = true ->
+  batch_ok o s TableFile (w :: rest) -> batch_ok o s BlobFile (b :: brest) ->
+  vns s (TempFile tmp) = None ->
+  new_version_ok o ov vid vtoks ctok (tnames (w :: rest) ++ bnames (b :: brest)) ->
+  dels_ok o s vid (map VersionFile old_vids) ->
+  protocol_ok o s (trace_flush_blob true (w :: rest) (b :: brest) vid vtoks tmp ctok old_vids) = true.
+Proof.
+  intros Hd Hroot Hvt Hdt Hvb Hdb [Hnt Hbt] [Hnb Hbb] Ht Hnv [Hdn Hdel].
+  pose proof Hd as ((Hw & Hv & _) & _).
+  destruct (two_writers_created BlobFile false Blobs TableFile true Tables
+              BlobFile_inj (fun _ => eq_refl) TableFile_inj (fun _ => eq_refl) blob_table_disj
+              true b brest w rest s Hw Hv Hvb Hvt Hnb Hnt)
+    as (s1 & Hr & R & Hsb & Hst);
+    [intros w' Hin; apply Hbb; assumption|intros w' Hin; apply Hbt; assumption|].
+  assert (Heq : trace_flush_blob true (w :: rest) (b :: brest) vid vtoks tmp ctok old_vids =
+                ([Create (TableFile (w_id w)) true; Create (BlobFile (w_id b)) false] ++
+                 files_from BlobFile false Blobs b brest ++ files_from TableFile true Tables w rest) ++
+                trace_persist vid vtoks tmp ctok ++ map Unlink (map VersionFile old_vids)).
+  { unfold trace_flush_blob, trace_blobs. rewrite blobs_from_eq, tables_from_eq, trace_maintenance_eq.
+    cbn [app]. rewrite <- !app_assoc. reflexivity. }
+  rewrite Heq.
+  apply (publish_shape_fresh o s ov
+           (fun h => GW BlobFile (b :: brest) h \/ GW TableFile (w :: rest) h) _ s1
+           (tnames (w :: rest) ++ bnames (b :: brest))); try assumption.
+  - intros g [(w' & Hin & ->)|(w' & Hin & ->)];
+      [destruct (Hbb w' Hin) as [H1 _]|destruct (Hbt w' Hin) as [H1 _]];
+      repeat split; try assumption; discriminate.
+  - intros op g Hop Hg.
+    exact (touched_two BlobFile false Blobs TableFile true Tables true b brest w rest op g Hop Hg).
+  - intros f Hf. apply in_app_or in Hf as [Hf|Hf]; apply in_map_iff in Hf as (w' & <- & Hin).
+    + eapply synced_stable; [apply Hst; assumption|apply Hbt; assumption|].
+      simpl. now apply (r_ddirs _ _ _ R).
+    + eapply synced_stable; [apply Hsb; assumption|apply Hbb; assumption|].
+      simpl. now apply (r_ddirs _ _ _ R).
+Qed.
+
+(** *** compaction merge (standard, or with blob relocation + the repaired blob writer) *)
+Theorem trace_merge_protocol_ok o s ov fixd w rest vid vtoks tmp ctok old_vids ots obs :
+  disk_ok o s ov -> vdirs s Root = true -> vdirs s Tables = true -> ddirs s Tables = true ->
+  batch_ok o s TableFile (w :: rest) -> vns s (TempFile tmp) = None ->
+  new_version_ok o ov vid vtoks ctok (tnames (w :: rest)) ->
+  dels_ok o s vid (map VersionFile old_vids ++ map TableFile ots ++ map BlobFile obs) ->
+  protocol_ok o s (trace_merge fixd (w :: rest) [] vid vtoks tmp ctok old_vids ots obs) = true.
+Proof.
+  intros Hd Hroot Hvt Hdt [Hnd Hb] Ht Hnv [Hdn Hdel].
+  pose proof Hd as ((Hw & Hv & _) & _).
+  destruct (writer_run TableFile true Tables TableFile_inj (fun _ => eq_refl) w rest s Hw Hv Hvt Hnd)
+    as (s1 & Hr & R & Hs); [intros w' Hin; apply Hb; assumption|].
+  assert (Heq : trace_merge fixd (w :: rest) [] vid vtoks tmp ctok old_vids ots obs =
+                (Create (TableFile (w_id w)) true :: files_from TableFile true Tables w rest) ++
+                trace_persist vid vtoks tmp ctok ++
+                map Unlink (map VersionFile old_vids ++ map TableFile ots ++ map BlobFile obs)).
+  { unfold trace_merge. rewrite tables_from_eq, trace_maintenance_eq, trace_drop_files_eq.
+    cbn [app]. rewrite <- map_app. reflexivity. }
+  rewrite Heq.
+  apply (publish_shape_fresh o s ov (GW TableFile (w :: rest)) _ s1 (tnames (w :: rest)));
+    try assumption.
+  - intros g (w' & Hin & ->). destruct (Hb w' Hin) as [H1 _]. repeat split; [assumption|discriminate..].
+  - intros op g [<-|Hop] Hg.
+    + destruct Hg as [<-|[]]. exists w. split; [now left|reflexivity].
+    + eapply files_from_touched; eauto.
+  - intros f Hf. apply in_map_iff in Hf as (w' & <- & Hin).
+    eapply synced_stable; [apply Hs; assumption|apply Hb; assumption|].
+    simpl. now apply (r_ddirs _ _ _ R).
+Qed.
+
+Theorem trace_merge_blob_fixed_protocol_ok o s ov w rest b brest vid vtoks tmp ctok old_vids ots obs :
+  disk_ok o s ov -> vdirs s Root = true ->
+  vdirs s Tables = true -> ddirs s Tables = true -> vdirs s Blobs = true -> ddirs s Blobs = true ->
+  batch_ok o s TableFile (w :: rest) -> batch_ok o s BlobFile (b :: brest) ->
+  vns s (TempFile tmp) = None ->
+  new_version_ok o ov vid vtoks ctok (tnames (w :: rest) ++ bnames (b :: brest)) ->
+  dels_ok o s vid (map VersionFile old_vids ++ map TableFile ots ++ map BlobFile obs) ->
+  protocol_ok o s (trace_merge true (w :: rest) (b :: brest) vid vtoks tmp ctok old_vids ots obs) = true.
+Proof.
+  intros Hd Hroot Hvt Hdt Hvb Hdb [Hnt Hbt] [Hnb Hbb] Ht Hnv [Hdn Hdel].
+  pose proof Hd as ((Hw & Hv & _) & _).
+  destruct (two_writers_created TableFile true Tables BlobFile false Blobs
+              TableFile_inj (fun _ => eq_refl) BlobFile_inj (fun _ => eq_refl) table_blob_disj
+              false w rest b brest s Hw Hv Hvt Hvb Hnt Hnb)
+    as (s1 & Hr & R & Hst & Hsb);
+    [intros w' Hin; apply Hbt; assumption|intros w' Hin; apply Hbb; assumption|].
+  assert (Heq : trace_merge true (w :: rest) (b :: brest) vid vtoks tmp ctok old_vids ots obs =
+                ([Create (TableFile (w_id w)) true; Create (BlobFile (w_id b)) false] ++
+                 files_from TableFile true Tables w rest ++ files_from BlobFile false Blobs b brest) ++
+                trace_persist vid vtoks tmp ctok ++
+                map Unlink (map VersionFile old_vids ++ map TableFile ots ++ map BlobFile obs)).
+  { unfold trace_merge. rewrite blobs_from_eq, tables_from_eq, trace_maintenance_eq, trace_drop_files_eq.
+    cbn [app]. rewrite <- map_app, <- !app_assoc. reflexivity. }
+  rewrite Heq.
+  apply (publish_shape_fresh o s ov
+           (fun h => GW TableFile (w :: rest) h \/ GW BlobFile (b :: brest) h) _ s1
+           (tnames (w :: rest) ++ bnames (b :: brest))); try assumption.
+  - intros g [(w' & Hin & ->)|(w' & Hin & ->)];
+      [destruct (Hbt w' Hin) as [H1 _]|destruct (Hbb w' Hin) as [H1 _]];
+      repeat split; try assumption; discriminate.
+  - intros op g Hop Hg.
+    exact (touched_two TableFile true Tables BlobFile false Blobs false w rest b brest op g Hop Hg).
+  - intros f Hf. apply in_app_or in Hf as [Hf|Hf]; apply in_map_iff in Hf as (w' & <- & Hin).
+    + eapply synced_stable; [apply Hst; assumption|apply Hbt; assumption|].
+      simpl. now apply (r_ddirs _ _ _ R).
+    + eapply synced_stable; [apply Hsb; assumption|apply Hbb; assumption|].
+      simpl. now apply (r_ddirs _ _ _ R).
+Qed.
+
+(** *** bulk ingestion (memtable empty: no inner flush; otherwise compose with
+    [trace_flush_protocol_ok] through [crash_atomic_generic]'s [disk_consistent sf]) *)
+Theorem trace_ingest_protocol_ok o s ov w rest vid vtoks tmp ctok :
+  disk_ok o s ov -> vdirs s Root = true -> vdirs s Tables = true -> ddirs s Tables = true ->
+  batch_ok o s TableFile (w :: rest) -> vns s (TempFile tmp) = None ->
+  new_version_ok o ov vid vtoks ctok (tnames (w :: rest)) ->
+  protocol_ok o s (trace_ingest (w :: rest) [] vid vtoks tmp ctok) = true.
+Proof.
+  intros Hd Hroot Hvt Hdt Hb Ht Hnv.
+  assert (Heq : trace_ingest (w :: rest) [] vid vtoks tmp ctok =
+                trace_flush (w :: rest) vid vtoks tmp ctok []).
+  { unfold trace_ingest, trace_flush, trace_tables, trace_maintenance. cbn [app map].
+    now rewrite app_nil_r. }
+  rewrite Heq. apply (trace_flush_protocol_ok o s ov); try assumption.
+  split; [constructor|intros f []].
+Qed.
+
+(** *** unlink-only traces: version GC ([maintenance]) and recovery's orphan cleanup *)
+Theorem unlinks_protocol_ok o s ov dels :
+  disk_ok o s ov -> NoDup dels ->
+  (forall f, In f dels -> vns s f <> None /\ f <> Current /\ ~ In f (opnames o ov)) ->
+  protocol_ok o s (map Unlink dels) = true.
+Proof.
+  intros Hd Hnd Hdel. unfold disk_ok in Hd. pose proof Hd as (_ & Hcd & Hcv & _).
+  unfold protocol_ok.
+  rewrite (cur_points_cur_of _ _ _ _ Hcd), (cur_points_cur_of _ _ _ _ Hcv).
+  assert (E : opt_eqb ov ov = true) by now apply opt_eqb_eq. rewrite E. cbn [andb].
+  destruct (unlinks_run dels s Hnd) as (s' & Hr); [intros f Hf; apply Hdel; assumption|].
+  rewrite (safe_segment o ov false (map Unlink dels) s s'); [exact E| |assumption].
+  intros op Hop. apply in_map_iff in Hop as (f & <- & Hf). destruct (Hdel f Hf) as (_ & H2 & H3).
+  apply safe_op_names. intros g [<-|[]]. now apply not_protected.
+Qed.
+
+Corollary trace_maintenance_protocol_ok o s v0 old_vids :
+  disk_ok o s (Some v0) -> NoDup old_vids ->
+  (forall a, In a old_vids -> vns s (VersionFile a) <> None /\ a <> v0) ->
+  protocol_ok o s (trace_maintenance old_vids) = true.
+Proof.
+  intros Hd Hnd H. rewrite trace_maintenance_eq. apply (unlinks_protocol_ok o s (Some v0)); auto.
+  - clear H. induction Hnd as [|a l Hni Hnd IH]; simpl; constructor; [|exact IH].
+    intros Hin. apply in_map_iff in Hin as (b & E & Hb). inversion E; subst. contradiction.
+  - intros f Hf. apply in_map_iff in Hf as (a & <- & Ha). destruct (H a Ha) as [H1 H2].
+    repeat split; [assumption|discriminate|].
+    simpl. intros Hin. apply version_in_pnames in Hin. congruence.
+Qed.
+
+Corollary trace_recover_cleanup_protocol_ok o s v0 deleted :
+  disk_ok o s (Some v0) -> NoDup deleted ->
+  (forall f, In f deleted -> vns s f <> None /\ f <> Current /\ ~ In f (pnames o v0)) ->
+  protocol_ok o s (trace_recover_cleanup deleted) = true.
+Proof. intros. unfold trace_recover_cleanup. now apply (unlinks_protocol_ok o s (Some v0)). Qed.
+
+(** *** create_new *)
+Lemma disk_ok_init o : disk_ok o fs_init None.
+Proof.
+  unfold disk_ok, inv. split; [|split; [|split; [|split]]]; simpl; auto.
+  split; [apply wf_init|]. split; [apply vinj_init|]. intros g i H; discriminate.
+Qed.
+
+Theorem trace_create_new_protocol_ok o blob vtoks tmp ctok :
+  expected o (VersionFile 0) = Some vtoks -> current_points o ctok = Some 0 ->
+  version_contents o 0 = Some (mkVdesc [] []) ->
+  protocol_ok o fs_init (trace_create_new blob vtoks tmp ctok) = true.
+Proof.
+  intros He Hc Hvc. unfold protocol_ok. cbn [cur_of fs_init dns vns opt_eqb andb].
+  unfold trace_create_new. rewrite proto_run_app.
+  set (pre := [Mkdir Root; Mkdir Tables; FsyncDir Tables; FsyncDir Root]).
+  assert (Hrun : exists s1, run_fs fs_init pre = Some s1 /\ vdirs s1 Root = true /\
+                            vns s1 (TempFile tmp) = None).
+  { eexists. split; [reflexivity|]. split; reflexivity. }
+  destruct Hrun as (s1 & Hr1 & Hroot1 & Ht1).
+  assert (Hsafe1 : forall op, In op pre -> safe_op (protected o (None, None, false)) op = true).
+  { intros op Hop. apply safe_op_names. intros g Hg.
+    simpl in Hop. repeat (destruct Hop as [<-|Hop]; [destruct Hg|]). destruct Hop. }
+  pose proof (safe_segment o None false pre fs_init s1 Hsafe1 Hr1) as Hp1. rewrite Hp1.
+  pose proof (proto_run_inv _ _ _ _ _ _ (disk_ok_init o) Hp1) as Hinv1.
+  destruct (persist_proto o s1 None 0 vtoks tmp ctok Hinv1 Hroot1) as (s2 & Hp2 & R2); auto.
+  { congruence. }
+  { intros f Hf Hne. unfold pnames in Hf. rewrite Hvc in Hf. simpl in Hf.
+    destruct Hf as [<-|[]]. congruence. }
+  rewrite proto_run_app, Hp2.
+  set (post := if blob then [Mkdir Blobs; FsyncDir Blobs] else []).
+  assert (Hrun3 : exists s3, run_fs s2 post = Some s3).
+  { unfold post. destruct blob; simpl; eauto. }
+  destruct Hrun3 as (s3 & Hr3).
+  rewrite (safe_segment o (Some 0) true post s2 s3); [reflexivity| |assumption].
+  intros op Hop. apply safe_op_names. intros g Hg. unfold post in Hop.
+  destruct blob; simpl in Hop; [|destruct Hop].
+  repeat (destruct Hop as [<-|Hop]; [destruct Hg|]). destruct Hop.
+Qed.
+
+(** * A crash image re-interpreted as the state the reopening process starts from *)
+Definition fname_code (f : fname) : N :=
+  match f with
+  | Current => 0
+  | VersionFile id => 1 + id * 6
+  | TableFile id => 2 + id * 6
+  | BlobFile id => 3 + id * 6
+  | TempFile id => 4 + id * 6
+  | Other id => 5 + id * 6
+  end.
+
+Definition fname_decode (n : N) : fname :=
+  let q := n / 6 in
+  match n mod 6 with
+  | 0 => Current
+  | 1 => VersionFile q
+  | 2 => TableFile q
+  | 3 => BlobFile q
+  | 4 => TempFile q
+  | _ => Other q
+  end.
+
+Lemma decode_code f : fname_decode (fname_code f) = f.
+Proof.
+  unfold fname_decode, fname_code.
+  destruct f as [|id|id|id|id|id]; [reflexivity|..];
+    rewrite N.mod_add, N.div_add by lia;
+    match goal with |- context [?r mod 6] =>
+      rewrite (N.mod_small r 6), (N.div_small r 6) by lia end; reflexivity.
+Qed.
+
+Lemma code_inj f g : fname_code f = fname_code g -> f = g.
+Proof. intros E. rewrite <- (decode_code f), <- (decode_code g). now rewrite E. Qed.
+
+(** token 0 is reserved for "torn tail" (the strace glue numbers write tokens from 1) *)
+Definition torn_tok : N := 0.
+
+Definition cont_of (c : icontent) : list N := if snd c then fst c ++ [torn_tok] else fst c.
+
+Definition state_of_image (img : image) : fsstate :=
+  let ns := fun f => match img_file img f with Some _ => Some (fname_code f) | None => None end in
+  let cont := fun i => match img_file img (fname_decode i) with Some c => cont_of c | None => [] end in
+  mkFs ns ns cont cont
+       (N.succ (fold_right N.max 0 (map fname_code (inames img))))
+       (fun d => dname_eqb d Root || idirs img d) (fun d => dname_eqb d Root || idirs img d)
+       (inames img).
+
+(** the listing of the image is exact *)
+Definition img_names_ok (img : image) : Prop :=
+  NoDup (inames img) /\ forall f, iget img f <> None -> In f (inames img).
+
+Lemma fold_max_ge l x : In x l -> x <= fold_right N.max 0 l.
+Proof.
+  induction l as [|y l IH]; simpl; [intros []|]. intros [->|H]; [lia|].
+  specialize (IH H). lia.
+Qed.
+
+Lemma soi_wf img : img_names_ok img -> wf (state_of_image img).
+Proof.
+  intros [_ Hn]. split; [reflexivity|]. intros f i H. simpl in *.
+  assert (Hf : img_file img f <> None /\ i = fname_code f).
+  { destruct H as [H|H]; destruct (img_file img f); inversion H; split; congruence. }
+  destruct Hf as [Hf ->].
+  assert (Hin : In f (inames img)).
+  { apply Hn. unfold img_file in Hf. destruct (idirs img (dir_of f)); congruence. }
+  pose proof (fold_max_ge _ _ (in_map fname_code _ _ Hin)). lia.
+Qed.
+
+Lemma soi_vinj img : vinj (state_of_image img).
+Proof.
+  intros f g i. simpl. destruct (img_file img f); [|discriminate].
+  destruct (img_file img g); [|discriminate]. intros H1 H2. apply code_inj. congruence.
+Qed.
+
+Lemma soi_stable o img f :
+  file_ok o img f = true -> stable o (state_of_image img) f.
+Proof.
+  unfold file_ok. destruct (img_file img f) as [[c tn]|] eqn:E; [|discriminate].
+  unfold complete. destruct (expected o f) as [e|] eqn:Ee; [|discriminate]. simpl.
+  intros H. apply andb_true_iff in H as [H1 H2]. apply negb_true_iff in H1. subst tn.
+  apply list_eqb_eq in H2. subst c.
+  apply stable_spec. exists (fname_code f), e. simpl. rewrite E, decode_code, E.
+  repeat split; auto.
+  unfold img_file in E. destruct (idirs img (dir_of f)); [apply orb_true_r|discriminate].
+Qed.
+
+Lemma NoDup_app_intro {A} (a b : list A) :
+  NoDup a -> NoDup b -> (forall x, In x a -> ~ In x b) -> NoDup (a ++ b).
+Proof.
+  induction a as [|x a IH]; simpl; intros Ha Hb Hd; [assumption|].
+  inversion Ha as [|? ? Hni Ha']; subst. constructor.
+  - intros Hin. apply in_app_or in Hin as [Hin|Hin]; [contradiction|]. apply (Hd x); auto.
+  - apply IH; auto.
+Qed.
+
+Lemma memN_false x l : memN x l = false -> ~ In x l.
+Proof.
+  unfold memN. intros H Hin. assert (existsb (N.eqb x) l = true); [|congruence].
+  apply existsb_exists. exists x. split; [assumption|apply N.eqb_refl].
+Qed.
+
+Lemma recovered_spec o img vid ts bs del :
+  recover_dir o img = Recovered vid ts bs del ->
+  exists vd, version_contents o vid = Some vd /\ ts = vd_tables vd /\
+             (NoDup (inames img) -> NoDup del) /\
+             forall f, In f del -> img_file img f <> None /\ f <> Current /\ ~ In f (pnames o vid).
+Proof.
+  unfold recover_dir.
+  destruct (img_file img Current) as [[[|t r] tn]|]; try discriminate.
+  destruct (current_points o t) as [v|]; [|discriminate].
+  destruct (negb (file_ok o img (VersionFile v))); [discriminate|].
+  destruct (version_contents o v) as [vd|] eqn:Ev; [|discriminate].
+  destruct (negb (forallb _ (vd_tables vd))); [discriminate|].
+  destruct (idirs img Blobs && negb (forallb _ (vd_blobs vd))); [discriminate|].
+  intros H; inversion H; subst; clear H. exists vd. split; [assumption|]. split; [reflexivity|].
+  assert (Hlist : forall d f, In f (listing img d) -> img_file img f <> None).
+  { intros d f Hf. unfold listing in Hf. apply filter_In in Hf as [_ Hf].
+    apply andb_true_iff in Hf as [_ Hf]. destruct (img_file img f); [discriminate|discriminate]. }
+  assert (Hpn : pnames o vid = VersionFile vid :: map TableFile (vd_tables vd) ++ map BlobFile (vd_blobs vd))
+    by (unfold pnames; now rewrite Ev).
+  split.
+  - intros Hnd.
+    assert (HL : forall d, NoDup (listing img d)) by (intros d; apply NoDup_filter; assumption).
+    apply NoDup_app_intro; [apply NoDup_filter, HL| |].
+    + apply NoDup_app_intro; [apply NoDup_filter, HL|apply NoDup_filter, HL|].
+      intros x Hx Hy. apply filter_In in Hx as [_ Hx]. apply filter_In in Hy as [_ Hy].
+      destruct x; discriminate.
+    + intros x Hx Hy. apply filter_In in Hx as [_ Hx].
+      apply in_app_or in Hy as [Hy|Hy]; apply filter_In in Hy as [_ Hy]; destruct x; discriminate.
+  - intros f Hf. apply in_app_or in Hf as [Hf|Hf]; [|apply in_app_or in Hf as [Hf|Hf]];
+      apply filter_In in Hf as [Hl Hf]; (split; [eapply Hlist; eauto|]);
+      destruct f as [|id|id|id|k|k]; try discriminate; (split; [discriminate|]);
+      rewrite Hpn; intros [E|Hin]; try discriminate.
+    + inversion E; subst. rewrite N.eqb_refl in Hf. discriminate.
+    + apply in_app_or in Hin as [Hin|Hin]; apply in_map_iff in Hin as (x & E & _); discriminate.
+    + apply in_app_or in Hin as [Hin|Hin]; apply in_map_iff in Hin as (x & E & Hx); try discriminate.
+      inversion E; subst. apply negb_true_iff in Hf. now apply memN_false in Hf.
+    + apply in_app_or in Hin as [Hin|Hin]; apply in_map_iff in Hin as (x & E & Hx); try discriminate.
+      inversion E; subst. apply negb_true_iff in Hf. now apply memN_false in Hf.
+Qed.
+
+Lemma unlinks_disk_ok o s ov dels :
+  disk_ok o s ov -> NoDup dels ->
+  (forall f, In f dels -> vns s f <> None /\ f <> Current /\ ~ In f (opnames o ov)) ->
+  exists s', run_fs s (map Unlink dels) = Some s' /\ disk_ok o s' ov.
+Proof.
+  intros Hd Hnd Hdel.
+  destruct (unlinks_run dels s Hnd) as (s' & Hr); [intros f Hf; apply Hdel; assumption|].
+  exists s'. split; [assumption|].
+  assert (Hp : proto_run o s (ov, ov, false) (map Unlink dels) = Some (s', (ov, ov, false))).
+  { apply safe_segment; [|assumption].
+    intros op Hop. apply in_map_iff in Hop as (f & <- & Hf). destruct (Hdel f Hf) as (_ & H2 & H3).
+    apply safe_op_names. intros g [<-|[]]. now apply not_protected. }
+  exact (proto_run_inv _ _ _ _ _ _ Hd Hp).
+Qed.
+
+Lemma inv_image_facts o s dv vv pub img :
+  inv o s (dv, vv, pub) -> is_crash_image s img ->
+  exists ov, pinned o s ov /\
+    match ov with
+    | Some v => exists t, img_file img Current = Some ([t], false) /\ current_points o t = Some v
+    | None => img_file img Current = None
+    end.
+Proof.
+  intros ((Hwf & _) & Hcd & Hcv & Hpd & Hpv) Himg. pose proof Himg as (Hd & _ & He).
+  assert (Hroot : idirs img Root = true) by (apply Hd; apply Hwf).
+  assert (Hcur : img_file img Current = iget img Current)
+    by (unfold img_file; simpl dir_of; now rewrite Hroot).
+  rewrite Hcur. specialize (He Current).
+  destruct (iget img Current) as [c|] eqn:Ec; simpl in He.
+  - destruct He as (i & [Hi|Hi] & Hc).
+    + exists dv. split; [assumption|]. destruct dv as [v|]; simpl in Hcd; [|congruence].
+      destruct Hcd as (i' & t & H1 & H2 & H3 & H4). assert (i' = i) as -> by congruence.
+      rewrite H2, H3 in Hc. apply crash_contents_synced in Hc as ->. eauto.
+    + exists vv. split; [assumption|]. destruct vv as [v|]; simpl in Hcv; [|congruence].
+      destruct Hcv as (i' & t & H1 & H2 & H3 & H4). assert (i' = i) as -> by congruence.
+      rewrite H2, H3 in Hc. apply crash_contents_synced in Hc as ->. eauto.
+  - destruct He as [Hn|Hn].
+    + exists dv. split; [assumption|]. destruct dv as [v|]; simpl in Hcd; [|reflexivity].
+      destruct Hcd as (i' & t & H1 & _). congruence.
+    + exists vv. split; [assumption|]. destruct vv as [v|]; simpl in Hcv; [|reflexivity].
+      destruct Hcv as (i' & t & H1 & _). congruence.
+Qed.
+
+(** After a crash anywhere in a protocol-conforming trace, recovery succeeds, its orphan
+    cleanup runs, and the resulting disk is consistent again (so the theorems apply to
+    the next operation of the reopened tree). *)
+Theorem crash_preserves_consistency o s tr :
+  disk_consistent o s -> protocol_ok o s tr = true ->
+  forall n sn img,
+    run_fs s (firstn n tr) = Some sn -> is_crash_image sn img -> img_names_ok img ->
+    exists vid ts bs del s',
+      recover_dir o img = Recovered vid ts bs del /\
+      run_fs (state_of_image img) (trace_recover_cleanup del) = Some s' /\
+      disk_ok o s' (Some vid) /\
+      summary (recover_result_of o s') = SRec vid ts bs.
+Proof.
+  intros [v0 Hd] Hp n sn img Hn Himg Hnames.
+  (* the invariant holds in [sn] *)
+  pose proof Hd as (_ & Hcd & Hcv & _). unfold disk_ok in Hd.
+  pose proof Hp as Hp'. unfold protocol_ok in Hp'.
+  rewrite (cur_points_cur_of _ _ _ _ Hcd), (cur_points_cur_of _ _ _ _ Hcv) in Hp'.
+  apply andb_true_iff in Hp' as [_ Hp'].
+  destruct (proto_run o s (Some v0, Some v0, false) tr) as [[sf [[dvf vvf] pubf]]|] eqn:Er;
+    [|discriminate].
+  apply opt_eqb_eq in Hp'.
+  destruct (crash_atomic_core _ _ _ _ _ _ _ _ Hd Er Hp') as (_ & _ & _ & Hall).
+  destruct (Hall n sn img Hn Himg) as (_ & _ & Hnf & dvn & vvn & pubn & Hin & _).
+  destruct (crash_atomic_generic o s tr (ex_intro _ v0 Hd) Hp) as (sf' & _ & _ & Hall').
+  destruct (Hall' n sn img Hn Himg) as (_ & _ & _ & Hnfresh).
+  destruct (inv_image_facts _ _ _ _ _ _ Hin Himg) as (ov & Hpin & Hcur).
+  destruct ov as [v|].
+  2:{ exfalso. apply Hnfresh. unfold recover_dir. now rewrite Hcur. }
+  destruct Hcur as (t & Hcur & Hpt). destruct Hpin as [Hvc Hst].
+  destruct (version_contents o v) as [vd|] eqn:Ev; [|congruence].
+  assert (Hok : forall f, In f (pnames o v) -> file_ok o img f = true)
+    by (intros f Hf; eapply crash_file_stable; eauto).
+  pose proof (recover_pinned o img t [] false v vd Hcur Hpt Ev Hok) as Hsum.
+  destruct (recover_dir o img) as [|vid ts bs del|] eqn:Erec; try discriminate.
+  simpl in Hsum. inversion Hsum; subst vid ts bs. clear Hsum.
+  destruct (recovered_spec _ _ _ _ _ _ Erec) as (vd' & Ev' & _ & Hnd & Hdel).
+  (* the reopened state is consistent *)
+  set (si := state_of_image img).
+  assert (Hdi : disk_ok o si (Some v)).
+  { unfold disk_ok, inv. split; [|split; [|split; [|split]]].
+    - split; [apply soi_wf; assumption|]. split; [apply soi_vinj|].
+      intros g i H1 H2. eapply soi_vinj; eauto.
+    - simpl. exists 0, t. rewrite Hcur. change (fname_decode 0) with Current. rewrite Hcur. auto.
+    - simpl. exists 0, t. rewrite Hcur. change (fname_decode 0) with Current. rewrite Hcur. auto.
+    - split; [congruence|]. intros f Hf. apply soi_stable. now apply Hok.
+    - split; [congruence|]. intros f Hf. apply soi_stable. now apply Hok. }
+  destruct (unlinks_disk_ok o si (Some v) del Hdi (Hnd (proj1 Hnames))) as (s' & Hr & Hd').
+  { intros f Hf. destruct (Hdel f Hf) as (H1 & H2 & H3). split; [|split; assumption].
+    simpl. destruct (img_file img f); congruence. }
+  exists v, (vd_tables vd), (vd_blobs vd), del, s'. split; [reflexivity|]. split; [exact Hr|].
+  split; [assumption|].
+  rewrite (inv_recover_durable o s' (Some v) false Hd'). simpl. unfold vsummary. now rewrite Ev.
+Qed.
+
 (** * Examples: a concrete 2-table disk and a flush *)
 Module Ex.
 (* v0 = empty, v1 lists tables 0,1, v2 lists 0,1,2; [current] payload tokens 100,101,102 *)
